@@ -104,7 +104,7 @@ def oldRangeText (r : Range) : Bytes := [42, 42, 42, 32] ++ rangeMid r ++ [32, 4
 def newRangeText (r : Range) : Bytes := [45, 45, 45, 32] ++ rangeMid r ++ [32, 45, 45, 45, 45]
 
 def halvesTexts (O : List PatchLine) (oR : Range) (N : List PatchLine) (nR : Range) : List Bytes :=
-  oldRangeText oR :: halfTexts O ++ newRangeText nR :: halfTexts N
+  oldRangeText oR :: (halfTexts O ++ newRangeText nR :: halfTexts N)
 
 theorem unlines_halfTexts (ls : List PatchLine) :
     unlines (halfTexts ls) =
@@ -132,6 +132,1644 @@ theorem writeContextHalves_eq (O : List PatchLine) (oR : Range) (N : List PatchL
   unfold writeContextHalves halvesTexts
   conv => rhs; rw [unlines_cons, unlines_append, unlines_cons, unlines_halfTexts, unlines_halfTexts]
   simp only [str_old4, str_old5nl, str_new4, str_new5nl, oldRangeText, newRangeText, rangeMid]
-  by_cases h1 : oR.count > 1 <;> by_cases h2 : nR.count > 1 <;> simp [h1, h2, NL]
+  by_cases h1 : oR.count > 1 <;> by_cases h2 : nR.count > 1 <;> simp [h1, h2, NL] <;> rfl
+
+/-! ### every emitted line is plain -/
+
+theorem isDigit_digitChar : ∀ d, d < 10 → isDigit (digitChar d) = true := by decide
+
+theorem natDigitsAux_digits (n : Nat) (acc : Bytes) (hacc : ∀ c ∈ acc, isDigit c = true) :
+    ∀ c ∈ natDigitsAux n acc, isDigit c = true := by
+  fun_induction natDigitsAux n acc with
+  | case1 n acc h =>
+    intro c hc
+    rcases List.mem_cons.mp hc with rfl | hc
+    · exact isDigit_digitChar n h
+    · exact hacc c hc
+  | case2 n acc h ih =>
+    apply ih
+    intro c hc
+    rcases List.mem_cons.mp hc with rfl | hc
+    · exact isDigit_digitChar _ (by omega)
+    · exact hacc c hc
+
+theorem intDigits_digits (i : Int) (h : 0 ≤ i) : ∀ c ∈ intDigits i, isDigit c = true := by
+  unfold intDigits natDigits
+  rw [if_neg (by omega)]
+  exact natDigitsAux_digits _ _ (by simp)
+
+theorem natDigitsAux_ne_nil (n : Nat) (acc : Bytes) : natDigitsAux n acc ≠ [] := by
+  fun_induction natDigitsAux n acc with
+  | case1 n acc h => simp
+  | case2 n acc h ih => exact ih
+
+theorem intDigits_ne_nil (i : Int) : intDigits i ≠ [] := by
+  unfold intDigits natDigits
+  split
+  · simp
+  · exact natDigitsAux_ne_nil _ _
+
+theorem isDigit_ne_NL {c : UInt8} (h : isDigit c = true) : c ≠ NL := by
+  intro hc; subst hc; revert h; decide
+
+theorem mem_rangeMid (r : Range) (hs : 0 ≤ r.start) (hc : 0 ≤ r.count) :
+    ∀ c ∈ rangeMid r, isDigit c = true ∨ c = 44 := by
+  intro c hc'
+  unfold rangeMid at hc'
+  rcases List.mem_append.mp hc' with h | h
+  · exact .inl (intDigits_digits _ hs c h)
+  · split at h
+    · rcases List.mem_cons.mp h with rfl | h
+      · exact .inr rfl
+      · exact .inl (intDigits_digits _ (by omega) c h)
+    · simp at h
+
+theorem NL_notMem_rangeMid (r : Range) (hs : 0 ≤ r.start) (hc : 0 ≤ r.count) : NL ∉ rangeMid r := by
+  intro h
+  rcases mem_rangeMid r hs hc NL h with h | h
+  · exact isDigit_ne_NL h rfl
+  · revert h; decide
+
+theorem plain_oldRangeText (r : Range) (hs : 0 ≤ r.start) (hc : 0 ≤ r.count) : PlainText (oldRangeText r) := by
+  have := NL_notMem_rangeMid r hs hc
+  constructor
+  · unfold oldRangeText
+    simp only [List.mem_append, not_or]
+    exact ⟨⟨by decide, this⟩, by decide⟩
+  · unfold oldRangeText
+    rw [List.getLast?_append]; simp [CR]
+
+theorem plain_newRangeText (r : Range) (hs : 0 ≤ r.start) (hc : 0 ≤ r.count) : PlainText (newRangeText r) := by
+  have := NL_notMem_rangeMid r hs hc
+  constructor
+  · unfold newRangeText
+    simp only [List.mem_append, not_or]
+    exact ⟨⟨by decide, this⟩, by decide⟩
+  · unfold newRangeText
+    rw [List.getLast?_append]; simp [CR]
+
+theorem plain_markerText : PlainText markerText := by
+  constructor <;> decide
+
+theorem plain_starsText : PlainText starsText := by
+  constructor <;> decide
+
+theorem plain_halfText (l : PatchLine) (hop : l.op ≠ NL) (hp : plainLine l.line = true) : PlainText (halfText l) := by
+  unfold plainLine at hp
+  simp only [Bool.and_eq_true, Bool.not_eq_true', bne_iff_ne, ne_eq] at hp
+  obtain ⟨h1, h2⟩ := hp
+  have h1' : NL ∉ l.line.content := by
+    simpa using h1
+  constructor
+  · unfold halfText
+    intro h
+    rcases List.mem_cons.mp h with h | h
+    · exact hop h.symm
+    · rcases List.mem_cons.mp h with h | h
+      · revert h; decide
+      · exact h1' h
+  · unfold halfText
+    cases hc : l.line.content with
+    | nil => simp [SP, CR]
+    | cons a as =>
+      rw [hc] at h2
+      simpa [List.getLast?_cons_cons] using h2
+
+theorem plain_halfTexts (ls : List PatchLine) (hop : ∀ l ∈ ls, l.op ≠ NL) (hp : ∀ l ∈ ls, plainLine l.line = true) :
+    ∀ t ∈ halfTexts ls, PlainText t := by
+  intro t ht
+  unfold halfTexts at ht
+  rcases List.mem_append.mp ht with h | h
+  · obtain ⟨l, hl, rfl⟩ := List.mem_map.mp h
+    exact plain_halfText l (hop l hl) (hp l hl)
+  · split at h
+    · simp at h; subst h; exact plain_markerText
+    · simp at h
+
+/-! ### the two halves computed by the writer -/
+
+def ctxs (ls : List PatchLine) : List Line := (ls.filter (·.op == SP)).map (·.line)
+
+def OldOps (ls : List PatchLine) : Prop := ∀ l ∈ ls, l.op = SP ∨ l.op = MINUS ∨ l.op = BANG
+def NewOps (ls : List PatchLine) : Prop := ∀ l ∈ ls, l.op = SP ∨ l.op = PLUS ∨ l.op = BANG
+
+theorem relabelFrom_split (pre post : List PatchLine) :
+    relabelFrom (pre ++ post) pre.length = pre ++ post.map fun l => { l with op := BANG } := by
+  simp [relabelFrom]
+
+theorem ctxs_append (a b : List PatchLine) : ctxs (a ++ b) = ctxs a ++ ctxs b := by
+  simp [ctxs]
+
+theorem ctxs_noSP (post : List PatchLine) (h : ∀ l ∈ post, l.op ≠ SP) : ctxs post = [] := by
+  simp only [ctxs, List.map_eq_nil_iff, List.filter_eq_nil_iff]
+  intro l hl; simpa using h l hl
+
+structure CtxInv (c : List PatchLine) (s : CtxState) : Prop where
+  oldLine : s.oldLines.map (·.line) = oldOf c
+  newLine : s.newLines.map (·.line) = newOf c
+  oldCtx : ctxs s.oldLines = ctxs c
+  newCtx : ctxs s.newLines = ctxs c
+  oldOps : OldOps s.oldLines
+  newOps : NewOps s.newLines
+  allIns : s.allIns = c.all (·.op != MINUS)
+  allDel : s.allDel = c.all (·.op != PLUS)
+  oldSplit : ∃ pre post, s.oldLines = pre ++ post ∧ pre.length = s.oldLast ∧ ∀ l ∈ post, l.op ≠ SP
+  newSplit : ∃ pre post, s.newLines = pre ++ post ∧ pre.length = s.newLast ∧ ∀ l ∈ post, l.op ≠ SP
+
+theorem CtxInv.init : CtxInv [] {} := by
+  constructor <;> first | exact ⟨[], [], rfl, rfl, by simp⟩ | simp [oldOf, newOf, ctxs, OldOps, NewOps]
+
+theorem oldOf_append (a b : List PatchLine) : oldOf (a ++ b) = oldOf a ++ oldOf b := by simp [oldOf]
+theorem newOf_append (a b : List PatchLine) : newOf (a ++ b) = newOf a ++ newOf b := by simp [newOf]
+theorem PLUS_beq_SP : (PLUS == SP) = false := by decide
+theorem MINUS_beq_SP : (MINUS == SP) = false := by decide
+theorem MINUS_beq_PLUS : (MINUS == PLUS) = false := by decide
+
+theorem BANG_ne_SP : BANG ≠ SP := by decide
+
+theorem CtxInv.makeChange {c : List PatchLine} {s : CtxState} (hi : CtxInv c s) (op : UInt8) :
+    CtxInv c (s.makeChange op) := by
+  unfold CtxState.makeChange
+  split
+  · obtain ⟨po, qo, ho, hlo, hqo⟩ := hi.oldSplit
+    obtain ⟨pn, qn, hn, hln, hqn⟩ := hi.newSplit
+    have e1 : relabelFrom s.oldLines s.oldLast = po ++ qo.map fun l => { l with op := BANG } := by
+      rw [ho, ← hlo, relabelFrom_split]
+    have e2 : relabelFrom s.newLines s.newLast = pn ++ qn.map fun l => { l with op := BANG } := by
+      rw [hn, ← hln, relabelFrom_split]
+    have hb : ∀ (q : List PatchLine), ∀ l ∈ q.map (fun l => { l with op := BANG }), l.op ≠ SP := by
+      intro q l hl
+      obtain ⟨l', _, rfl⟩ := List.mem_map.mp hl
+      exact BANG_ne_SP
+    constructor
+    · simp only [e1]; rw [← hi.oldLine, ho]; simp
+    · simp only [e2]; rw [← hi.newLine, hn]; simp
+    · simp only [e1]; rw [← hi.oldCtx, ho, ctxs_append, ctxs_append, ctxs_noSP _ hqo, ctxs_noSP _ (hb qo)]
+    · simp only [e2]; rw [← hi.newCtx, hn, ctxs_append, ctxs_append, ctxs_noSP _ hqn, ctxs_noSP _ (hb qn)]
+    · simp only [e1]
+      intro l hl
+      rcases List.mem_append.mp hl with h | h
+      · exact hi.oldOps l (by rw [ho]; exact List.mem_append_left _ h)
+      · obtain ⟨l', _, rfl⟩ := List.mem_map.mp h
+        exact .inr (.inr rfl)
+    · simp only [e2]
+      intro l hl
+      rcases List.mem_append.mp hl with h | h
+      · exact hi.newOps l (by rw [hn]; exact List.mem_append_left _ h)
+      · obtain ⟨l', _, rfl⟩ := List.mem_map.mp h
+        exact .inr (.inr rfl)
+    · exact hi.allIns
+    · exact hi.allDel
+    · exact ⟨po, _, e1, hlo, hb qo⟩
+    · exact ⟨pn, _, e2, hln, hb qn⟩
+  · exact hi
+
+/-- the state in which a '+' or '-' line is appended -/
+def ctxPre (s : CtxState) (op : UInt8) : CtxState :=
+  if s.operation != SP then s.makeChange op else { s with operation := op }
+
+theorem CtxInv.pre {c : List PatchLine} {s : CtxState} (hi : CtxInv c s) (op : UInt8) :
+    CtxInv c (ctxPre s op) := by
+  unfold ctxPre
+  split
+  · exact hi.makeChange op
+  · exact ⟨hi.oldLine, hi.newLine, hi.oldCtx, hi.newCtx, hi.oldOps, hi.newOps, hi.allIns, hi.allDel, hi.oldSplit, hi.newSplit⟩
+
+theorem ctxPre_operation (s : CtxState) (op : UInt8) : (ctxPre s op).operation = op ∨ (ctxPre s op).operation = BANG := by
+  unfold ctxPre CtxState.makeChange
+  split
+  · split
+    · exact .inr rfl
+    · rename_i h; left; simpa using h
+  · exact .inl rfl
+
+theorem ctxStep_inv (h : Hunk) {c : List PatchLine} {s s' : CtxState} {pl : PatchLine} (hi : CtxInv c s)
+    (hop : pl.op = SP ∨ pl.op = PLUS ∨ pl.op = MINUS) (hs : ctxStep h s pl = .ok s') :
+    CtxInv (c ++ [pl]) s' := by
+  unfold ctxStep at hs
+  rcases hop with hop | hop | hop
+  · rcases pl with ⟨op, line⟩
+    simp only at hop; subst hop
+    simp only [beq_self_eq_true, if_true] at hs
+    split at hs
+    · cases hs
+    split at hs
+    · cases hs
+    cases hs
+    constructor
+    · simp [oldOf_append, hi.oldLine]; simp [oldOf, SP, PLUS]
+    · simp [newOf_append, hi.newLine]; simp [newOf, SP, MINUS]
+    · simp [ctxs_append, hi.oldCtx]
+    · simp [ctxs_append, hi.newCtx]
+    · intro l hl
+      rcases List.mem_append.mp hl with h | h
+      · exact hi.oldOps l h
+      · simp at h; subst h; exact .inl rfl
+    · intro l hl
+      rcases List.mem_append.mp hl with h | h
+      · exact hi.newOps l h
+      · simp at h; subst h; exact .inl rfl
+    · simp [hi.allIns, SP, MINUS]
+    · simp [hi.allDel, SP, PLUS]
+    · exact ⟨_, [], by simp, rfl, by simp⟩
+    · exact ⟨_, [], by simp, rfl, by simp⟩
+  · rcases pl with ⟨op, line⟩
+    simp only at hop; subst hop
+    simp only [PLUS_beq_SP, beq_self_eq_true, if_true, Bool.false_eq_true, if_false] at hs
+    split at hs
+    · cases hs
+    cases hs
+    have hp := hi.pre PLUS
+    have hpo := ctxPre_operation s PLUS
+    change CtxInv (c ++ [⟨PLUS, line⟩]) { ctxPre s PLUS with newLines := (ctxPre s PLUS).newLines ++ [⟨(ctxPre s PLUS).operation, line⟩], allDel := false }
+    generalize ctxPre s PLUS = t at hp hpo
+    have hne : t.operation ≠ SP := by rcases hpo with h | h <;> rw [h] <;> decide
+    constructor
+    · simp [oldOf_append, hp.oldLine]; simp [oldOf]
+    · simp [newOf_append, hp.newLine]; simp [newOf, PLUS, MINUS]
+    · simp [ctxs_append, hp.oldCtx]; simp [ctxs, PLUS, SP]
+    · simp [ctxs_append, hp.newCtx]; (have : (t.operation == SP) = false := by simpa using hne); simp [ctxs, List.filter, this, PLUS_beq_SP]
+    · exact hp.oldOps
+    · intro l hl
+      rcases List.mem_append.mp hl with h | h
+      · exact hp.newOps l h
+      · simp at h; subst h
+        rcases hpo with h | h
+        · exact .inr (.inl h)
+        · exact .inr (.inr h)
+    · simp [hp.allIns, PLUS, MINUS]
+    · simp
+    · exact hp.oldSplit
+    · obtain ⟨p, q, h1, h2, h3⟩ := hp.newSplit
+      refine ⟨p, q ++ [⟨t.operation, line⟩], by simp [h1], h2, ?_⟩
+      intro l hl
+      rcases List.mem_append.mp hl with h | h
+      · exact h3 l h
+      · simp at h; subst h; exact hne
+  · rcases pl with ⟨op, line⟩
+    simp only at hop; subst hop
+    simp only [MINUS_beq_SP, MINUS_beq_PLUS, beq_self_eq_true, if_true, Bool.false_eq_true, if_false] at hs
+    split at hs
+    · cases hs
+    cases hs
+    have hp := hi.pre MINUS
+    have hpo := ctxPre_operation s MINUS
+    change CtxInv (c ++ [⟨MINUS, line⟩]) { ctxPre s MINUS with oldLines := (ctxPre s MINUS).oldLines ++ [⟨(ctxPre s MINUS).operation, line⟩], allIns := false }
+    generalize ctxPre s MINUS = t at hp hpo
+    have hne : t.operation ≠ SP := by rcases hpo with h | h <;> rw [h] <;> decide
+    constructor
+    · simp [oldOf_append, hp.oldLine]; simp [oldOf, PLUS, MINUS]
+    · simp [newOf_append, hp.newLine]; simp [newOf]
+    · simp [ctxs_append, hp.oldCtx]; (have : (t.operation == SP) = false := by simpa using hne); simp [ctxs, List.filter, this, MINUS_beq_SP]
+    · simp [ctxs_append, hp.newCtx]; simp [ctxs, MINUS, SP]
+    · intro l hl
+      rcases List.mem_append.mp hl with h | h
+      · exact hp.oldOps l h
+      · simp at h; subst h
+        rcases hpo with h | h
+        · exact .inr (.inl h)
+        · exact .inr (.inr h)
+    · exact hp.newOps
+    · simp
+    · simp [hp.allDel, PLUS, MINUS]
+    · obtain ⟨p, q, h1, h2, h3⟩ := hp.oldSplit
+      refine ⟨p, q ++ [⟨t.operation, line⟩], by simp [h1], h2, ?_⟩
+      intro l hl
+      rcases List.mem_append.mp hl with h | h
+      · exact h3 l h
+      · simp at h; subst h; exact hne
+    · exact hp.newSplit
+
+theorem ctxFold_inv (h : Hunk) : ∀ (ls c : List PatchLine) (s s' : CtxState), CtxInv c s →
+    (∀ pl ∈ ls, pl.op = SP ∨ pl.op = PLUS ∨ pl.op = MINUS) → ctxFold h s ls = .ok s' → CtxInv (c ++ ls) s' := by
+  intro ls
+  induction ls with
+  | nil => intro c s s' hi _ hs; simp [ctxFold] at hs; subst hs; simpa using hi
+  | cons pl rest ih =>
+    intro c s s' hi hops hs
+    rw [ctxFold] at hs
+    split at hs
+    · cases hs
+    · rename_i s1 h1
+      have := ih (c ++ [pl]) s1 s' (ctxStep_inv h hi (hops pl (by simp)) h1)
+        (fun p hp => hops p (by simp [hp])) hs
+      simpa using this
+
+/-! ### the parser on a stream of LF-terminated lines -/
+
+/-- a parser positioned at `rest`, no flag set -/
+def mkPar (rest : List Line) (n : Nat) : Parser := { s := { rest := rest }, lineNo := n }
+
+/-- the parser after `get_line` failed at the end of input -/
+def eofPar (n : Nat) : Parser := { s := { rest := [], eof := true }, lineNo := n }
+
+theorem getLine_lf (c : Bytes) (r : List Line) (n : Nat) :
+    (mkPar (lfLine c :: r) n).getLine = (some (lfLine c), mkPar r (n + 1)) := by
+  simp [mkPar, Parser.getLine, PStream.getLine, lfLine]
+
+theorem getLine_nil (n : Nat) : (mkPar [] n).getLine = (none, eofPar n) := by
+  simp [mkPar, eofPar, Parser.getLine, PStream.getLine]
+
+theorem getLine_of_rest_nil (p : Parser) (h : p.s.rest = []) : p.getLine.1 = none := by
+  unfold Parser.getLine PStream.getLine
+  split <;> rename_i heq
+  · rfl
+  · exfalso
+    split at heq
+    · cases heq
+    · split at heq
+      · cases heq
+      · rw [h] at heq; cases heq
+
+theorem peek_cons (c : UInt8) (cs : Bytes) (r : List Line) (n : Nat) :
+    (mkPar (lfLine (c :: cs) :: r) n).s.peek = c := by
+  simp [mkPar, PStream.peek, lfLine]
+
+theorem peek_nil (n : Nat) : (mkPar [] n).s.peek = 255 := by
+  simp [mkPar, PStream.peek]
+
+/-! ### prefix / suffix tests -/
+
+theorem startsWith_old (m : Bytes) : startsWith ([42, 42, 42, 32] ++ m) "*** " = true := by
+  unfold startsWith; rw [str_old4]; simp [List.isPrefixOf]
+
+theorem endsWith_old (m : Bytes) : endsWith (m ++ [32, 42, 42, 42, 42]) " ****" = true := by
+  unfold endsWith; rw [str_old5]; simp [List.isPrefixOf]
+
+theorem startsWith_new (m : Bytes) : startsWith ([45, 45, 45, 32] ++ m) "--- " = true := by
+  unfold startsWith; rw [str_new4]; simp [List.isPrefixOf]
+
+theorem endsWith_new (m : Bytes) : endsWith (m ++ [32, 45, 45, 45, 45]) " ----" = true := by
+  unfold endsWith; rw [str_new5]; simp [List.isPrefixOf]
+
+theorem startsWith_half_new (op : UInt8) (c : Bytes) : startsWith (op :: SP :: c) "--- " = false := by
+  unfold startsWith; rw [str_new4]; simp [List.isPrefixOf, SP]
+
+theorem startsWith_half_stars10 (op : UInt8) (c : Bytes) : startsWith (op :: SP :: c) "**********" = false := by
+  unfold startsWith; rw [str_stars10]; simp [List.isPrefixOf, SP]
+
+theorem startsWith_stars_old : startsWith starsText "*** " = false := by
+  unfold startsWith; rw [str_old4]; decide
+
+theorem startsWith_stars_stars10 : startsWith starsText "**********" = true := by
+  unfold startsWith; rw [str_stars10]; decide
+
+theorem startsWith_stars_stars15 : startsWith starsText "***************" = true := by
+  unfold startsWith; rw [str_stars15]; decide
+
+theorem startsWith_nil_stars15 : startsWith [] "***************" = false := by
+  unfold startsWith; rw [str_stars15]; decide
+
+theorem startsWith_nil_old : startsWith [] "*** " = false := by
+  unfold startsWith; rw [str_old4]; decide
+
+theorem startsWith_nil_new : startsWith [] "--- " = false := by
+  unfold startsWith; rw [str_new4]; decide
+
+theorem ctxRangeText_mid (a m b : Bytes) (ha : a.length = 4) (hb : b.length = 5) (hm : m ≠ []) :
+    ctxRangeText (a ++ m ++ b) = m := by
+  unfold ctxRangeText
+  have : 0 < m.length := List.length_pos_iff.mpr hm
+  rw [if_neg (by simp; omega)]
+  rw [List.append_assoc, List.drop_append_of_le_length (by omega), ← ha, List.drop_length, List.nil_append]
+  have : (a ++ (m ++ b)).length - 9 = m.length := by simp; omega
+  rw [this, List.take_left']
+  rfl
+
+theorem rangeMid_ne_nil (r : Range) : rangeMid r ≠ [] := by
+  unfold rangeMid
+  intro h
+  exact intDigits_ne_nil _ (List.append_eq_nil_iff.mp h).1
+
+theorem ctxRangeText_old (r : Range) : ctxRangeText (oldRangeText r) = rangeMid r :=
+  ctxRangeText_mid _ _ _ rfl rfl (rangeMid_ne_nil r)
+
+theorem ctxRangeText_new (r : Range) : ctxRangeText (newRangeText r) = rangeMid r :=
+  ctxRangeText_mid _ _ _ rfl rfl (rangeMid_ne_nil r)
+
+/-! ### ranges -/
+
+/-- printing a line number and reading it back (proved in `Lemmas/Unified`; taken as a hypothesis here) -/
+def NumberRoundtrip : Prop :=
+  ∀ (n : Nat), (n : Int) ≤ i64Max → ∀ (rest : Bytes) (cur : Int),
+    (∀ c, rest.head? = some c → isDigit c = false) →
+    consumeLineNumber (intDigits (n : Int) ++ rest) cur = (true, (n : Int), rest)
+
+theorem number_roundtrip_int (NR : NumberRoundtrip) (i : Int) (h0 : 0 ≤ i) (h1 : i ≤ i64Max) (rest : Bytes) (cur : Int)
+    (hrest : ∀ c, rest.head? = some c → isDigit c = false) :
+    consumeLineNumber (intDigits i ++ rest) cur = (true, i, rest) := by
+  have := NR i.toNat (by omega) rest cur hrest
+  rwa [Int.toNat_of_nonneg h0] at this
+
+/-- a range the writer can print and the parser can read back -/
+def RangeOK (r : Range) : Prop := 0 ≤ r.start ∧ 0 ≤ r.count ∧ r.start + r.count ≤ i64Max
+
+theorem parseContextRange_mid (NR : NumberRoundtrip) (r : Range) (hr : RangeOK r) (a b : Int) :
+    parseContextRange a b (rangeMid r) = (true, r.start, rangeEnd r) := by
+  obtain ⟨h0, h1, h2⟩ := hr
+  unfold parseContextRange rangeMid rangeEnd
+  by_cases hc : r.count > 1
+  · simp only [hc, if_true]
+    rw [number_roundtrip_int NR r.start h0 (by omega) _ a (by intro c h; simp at h; subst h; decide)]
+    simp only [Bool.not_true, Bool.false_eq_true, if_false]
+    have : consumeStr [44] (44 :: intDigits (r.start + r.count - 1)) = some (intDigits (r.start + r.count - 1)) := by
+      simp [consumeStr, List.isPrefixOf]
+    rw [this]
+    simp only
+    have := number_roundtrip_int NR (r.start + r.count - 1) (by omega) (by omega) [] b (by simp)
+    rw [List.append_nil] at this
+    rw [this]
+  · simp only [hc, if_false, List.append_nil]
+    have := number_roundtrip_int NR r.start h0 (by omega) [] a (by simp)
+    rw [List.append_nil] at this
+    rw [this]
+    simp [consumeStr, List.isPrefixOf]
+
+/-! ### the stages of `parseContextHunk` -/
+
+theorem skip_old (NR : NumberRoundtrip) (r : Range) (hr : RangeOK r) (fuel : Nat) (rest : List Line) (n : Nat) (a b : Int) :
+    ctxSkipToOldRange (fuel + 1) (mkPar (lfLine (oldRangeText r) :: rest) n) a b
+      = (mkPar rest (n + 1), r.start, rangeEnd r) := by
+  rw [ctxSkipToOldRange, getLine_lf]
+  simp only
+  have h1 : startsWith (lfLine (oldRangeText r)).content "*** " = true := by
+    simp only [lfLine, oldRangeText, List.append_assoc]; exact startsWith_old _
+  have h2 : endsWith (lfLine (oldRangeText r)).content " ****" = true := by
+    simp only [lfLine, oldRangeText]; exact endsWith_old _
+  rw [h1, h2]
+  simp only [Bool.and_self, if_true]
+  have : (lfLine (oldRangeText r)).content = oldRangeText r := rfl
+  rw [this, ctxRangeText_old, parseContextRange_mid NR r hr]
+
+theorem skip_stars (fuel : Nat) (rest : List Line) (n : Nat) (a b : Int) :
+    ctxSkipToOldRange (fuel + 1) (mkPar (lfLine starsText :: rest) n) a b
+      = ctxSkipToOldRange fuel (mkPar rest (n + 1)) a b := by
+  rw [ctxSkipToOldRange, getLine_lf]
+  simp only
+  have h1 : startsWith (lfLine starsText).content "*** " = false := startsWith_stars_old
+  rw [h1]
+  simp
+
+theorem parseNewRange_new (NR : NumberRoundtrip) (r : Range) (hr : RangeOK r) (a b : Int) :
+    ctxParseNewRange (newRangeText r) a b = .ok (some (r.start, rangeEnd r)) := by
+  unfold ctxParseNewRange
+  have h1 : startsWith (newRangeText r) "--- " = true := by
+    simp only [newRangeText, List.append_assoc]; exact startsWith_new _
+  have h2 : endsWith (newRangeText r) " ----" = true := by
+    simp only [newRangeText]; exact endsWith_new _
+  rw [h1, h2, ctxRangeText_new, parseContextRange_mid NR r hr]
+  simp
+
+theorem parseNewRange_half (l : PatchLine) (a b : Int) : ctxParseNewRange (halfText l) a b = .ok none := by
+  unfold ctxParseNewRange halfText
+  rw [startsWith_half_new]; simp
+
+/-- the operation bytes of a context half -/
+def HalfOp (op : UInt8) : Prop := op = SP ∨ op = PLUS ∨ op = MINUS ∨ op = BANG
+
+/-- a line as the parser reads it back, before the missing-newline marker is looked at -/
+def lfOf (l : PatchLine) : PatchLine := ⟨l.op, ⟨l.line.content, .lf⟩⟩
+
+theorem appendLine_half (acc : List PatchLine) (l : PatchLine) (hop : HalfOp l.op) :
+    ctxAppendLine acc (halfText l) .lf = .ok (acc ++ [lfOf l]) := by
+  unfold ctxAppendLine halfText
+  simp only
+  have h1 : (SP == MINUS) = false := by decide
+  rw [h1]
+  have h2 : (l.op != SP && l.op != PLUS && l.op != MINUS && l.op != BANG) = false := by
+    rcases hop with h | h | h | h <;> rw [h] <;> decide
+  rw [h2]
+  simp [lfOf]
+
+theorem appendContent_half (ts : List PatchLine) (hops : ∀ l ∈ ts, HalfOp l.op) :
+    ∀ (fuel : Nat) (acc : List PatchLine) (tail : List Line) (n : Nat) (startL endL : Int),
+      ts.length < fuel → startL + (acc.length : Int) + (ts.length : Int) = endL + 1 →
+      ctxAppendContent fuel (mkPar ((ts.map halfText).map lfLine ++ tail) n) acc startL endL
+        = .ok (acc ++ ts.map lfOf, mkPar tail (n + ts.length)) := by
+  induction ts with
+  | nil =>
+    intro fuel acc tail n startL endL hf he
+    cases fuel with
+    | zero => simp at hf
+    | succ fuel =>
+      rw [ctxAppendContent, if_neg (by simp at he; omega)]
+      simp
+  | cons t ts ih =>
+    intro fuel acc tail n startL endL hf he
+    cases fuel with
+    | zero => simp at hf
+    | succ fuel =>
+      simp only [List.length_cons] at he hf
+      rw [ctxAppendContent, if_pos (by omega)]
+      simp only [List.map_cons, List.cons_append]
+      rw [getLine_lf]
+      simp only
+      have e1 : (lfLine (halfText t)).content = halfText t := rfl
+      have e2 : (lfLine (halfText t)).newline = .lf := rfl
+      rw [e1, e2, appendLine_half acc t (hops t (by simp))]
+      simp only
+      rw [ih (fun l hl => hops l (by simp [hl])) fuel (acc ++ [lfOf t]) tail (n + 1) startL endL (by omega)
+        (by simp only [List.length_append, List.length_singleton]; omega)]
+      simp [Nat.add_assoc, Nat.add_comm 1]
+
+theorem BACKSLASH_eq : BACKSLASH = 92 := rfl
+
+/-- what follows a half does not start with a backslash -/
+def NoBackslash (tail : List Line) : Prop := ∀ n, (mkPar tail n).s.peek ≠ BACKSLASH
+
+theorem noBackslash_nil : NoBackslash [] := by
+  intro n; rw [peek_nil]; decide
+
+theorem noBackslash_cons (c : UInt8) (cs : Bytes) (r : List Line) (h : c ≠ 92) : NoBackslash (lfLine (c :: cs) :: r) := by
+  intro n; rw [peek_cons]; exact h
+
+theorem checkNoNewline_marker (ls : List PatchLine) (hne : ls ≠ []) (tail : List Line) (n : Nat) :
+    ctxCheckNoNewline (mkPar (lfLine markerText :: tail) n) ls = (markLastNone ls, mkPar tail (n + 1)) := by
+  unfold ctxCheckNoNewline
+  have : (mkPar (lfLine markerText :: tail) n).s.peek = BACKSLASH := by
+    unfold markerText; rw [peek_cons]; rfl
+  rw [if_pos ⟨by simpa using hne, this⟩, getLine_lf]
+
+theorem checkNoNewline_none (ls : List PatchLine) (tail : List Line) (h : NoBackslash tail) (n : Nat) :
+    ctxCheckNoNewline (mkPar tail n) ls = (ls, mkPar tail n) := by
+  unfold ctxCheckNoNewline
+  rw [if_neg (fun hc => h n hc.2)]
+
+/-- the lines of a half as the parser reads them back -/
+def readBack (ts : List PatchLine) : List PatchLine :=
+  if lastNone ts then markLastNone (ts.map lfOf) else ts.map lfOf
+
+def halfLines (ts : List PatchLine) : List Line := (halfTexts ts).map lfLine
+
+/-- reading a whole half: its content lines (the first `pre` already read), then the marker if there is one -/
+theorem read_half (ts : List PatchLine) (hops : ∀ l ∈ ts, HalfOp l.op) (pre : List PatchLine) (mk : Bool)
+    (fuel : Nat) (tail : List Line) (htail : NoBackslash tail) (n : Nat) (startL endL : Int)
+    (hf : ts.length < fuel) (he : startL + (pre.length : Int) + (ts.length : Int) = endL + 1)
+    (hne : pre ++ ts ≠ []) :
+    ∃ ls par n',
+      ctxAppendContent fuel
+        (mkPar ((ts.map halfText).map lfLine ++ ((if mk then [lfLine markerText] else []) ++ tail)) n)
+        (pre.map lfOf) startL endL = .ok (ls, par) ∧
+      ctxCheckNoNewline par ls =
+        (if mk then markLastNone ((pre ++ ts).map lfOf) else (pre ++ ts).map lfOf, mkPar tail n') := by
+  rw [appendContent_half ts hops fuel (pre.map lfOf) _ n startL endL hf (by simpa using he)]
+  cases mk with
+  | true =>
+    refine ⟨_, _, n + ts.length + 1, rfl, ?_⟩
+    simp only [← List.map_append, if_true, List.cons_append, List.nil_append]
+    rw [checkNoNewline_marker _ (by simpa using hne)]
+  | false =>
+    refine ⟨_, _, n + ts.length, rfl, ?_⟩
+    simp only [← List.map_append, Bool.false_eq_true, if_false, List.nil_append]
+    rw [checkNoNewline_none _ _ htail]
+
+theorem halfLines_eq (ts : List PatchLine) (tail : List Line) :
+    halfLines ts ++ tail =
+      (ts.map halfText).map lfLine ++ ((if lastNone ts then [lfLine markerText] else []) ++ tail) := by
+  unfold halfLines halfTexts
+  rw [List.map_append, List.append_assoc]
+  split <;> rfl
+
+theorem halfLines_nil : halfLines [] = [] := rfl
+
+theorem hunkLines_eq (O : List PatchLine) (oR : Range) (N : List PatchLine) (nR : Range) (tail : List Line) :
+    (halvesTexts O oR N nR).map lfLine ++ tail =
+      lfLine (oldRangeText oR) :: (halfLines O ++ lfLine (newRangeText nR) :: (halfLines N ++ tail)) := by
+  simp [halvesTexts, halfLines]
+
+theorem skip_pre (NR : NumberRoundtrip) (pre : List Line) (hpre : pre = [] ∨ pre = [lfLine starsText])
+    (r : Range) (hr : RangeOK r) (fuel : Nat) (rest : List Line) (n : Nat) (a b : Int) :
+    ∃ n', ctxSkipToOldRange (fuel + 2) (mkPar (pre ++ lfLine (oldRangeText r) :: rest) n) a b
+      = (mkPar rest n', r.start, rangeEnd r) := by
+  rcases hpre with rfl | rfl
+  · exact ⟨_, skip_old NR r hr (fuel + 1) rest n a b⟩
+  · refine ⟨n + 1 + 1, ?_⟩
+    rw [List.singleton_append, skip_stars, skip_old NR r hr]
+
+/-! ### `parseContextHunk` by stages -/
+
+theorem parseHunk_stages_oldOmitted (par par1 par2 par3 par4 : Parser) (os oe ns ne : Int) (l1 : Line)
+    (nls nls' : List PatchLine)
+    (h1 : ctxSkipToOldRange (par.s.rest.length + 2) par 0 0 = (par1, os, oe))
+    (h2 : par1.getLine = (some l1, par2))
+    (h3 : ctxParseNewRange l1.content 0 0 = .ok (some (ns, ne)))
+    (h4 : ctxAppendContent (par.s.rest.length + 2) par2 [] ns ne = .ok (nls, par3))
+    (h5 : ctxCheckNoNewline par3 nls = (nls', par4)) :
+    parseContextHunk par = .ok ([], os, nls', ns, par4) := by
+  unfold parseContextHunk
+  simp only [h1, h2, h3, h4, h5]
+
+theorem parseHunk_stages_both (par par1 par2 par3 par4 par5 par6 par7 par8 : Parser) (os oe ns ne : Int) (l1 l2 l3 : Line)
+    (old1 ols ols' new1 nls nls' : List PatchLine)
+    (h1 : ctxSkipToOldRange (par.s.rest.length + 2) par 0 0 = (par1, os, oe))
+    (h2 : par1.getLine = (some l1, par2))
+    (h3 : ctxParseNewRange l1.content 0 0 = .ok none)
+    (h4 : ctxAppendLine [] l1.content l1.newline = .ok old1)
+    (h5 : ctxAppendContent (par.s.rest.length + 2) par2 old1 os oe = .ok (ols, par3))
+    (h6 : ctxCheckNoNewline par3 ols = (ols', par4))
+    (h7 : par4.getLine = (some l2, par5))
+    (h8 : ctxParseNewRange l2.content 0 0 = .ok (some (ns, ne)))
+    (h9 : par5.getLine = (some l3, par6))
+    (h10 : par6.s.eof = false)
+    (h11 : startsWith l3.content "**********" = false)
+    (h12 : ctxAppendLine [] l3.content l3.newline = .ok new1)
+    (h13 : ctxAppendContent (par.s.rest.length + 2) par6 new1 ns ne = .ok (nls, par7))
+    (h14 : ctxCheckNoNewline par7 nls = (nls', par8)) :
+    parseContextHunk par = .ok (ols', os, nls', ns, par8) := by
+  unfold parseContextHunk
+  simp only [h1, h2, h3, h4, h5, h6, h7, h8, h9, h10, h11, h12, h13, h14, Bool.false_eq_true, if_false]
+
+theorem parseHunk_stages_newOmitted (par par1 par2 par3 par4 par5 par6 : Parser) (os oe ns ne : Int) (l1 l2 : Line)
+    (l3o : Option Line) (old1 ols ols' : List PatchLine)
+    (h1 : ctxSkipToOldRange (par.s.rest.length + 2) par 0 0 = (par1, os, oe))
+    (h2 : par1.getLine = (some l1, par2))
+    (h3 : ctxParseNewRange l1.content 0 0 = .ok none)
+    (h4 : ctxAppendLine [] l1.content l1.newline = .ok old1)
+    (h5 : ctxAppendContent (par.s.rest.length + 2) par2 old1 os oe = .ok (ols, par3))
+    (h6 : ctxCheckNoNewline par3 ols = (ols', par4))
+    (h7 : par4.getLine = (some l2, par5))
+    (h8 : ctxParseNewRange l2.content 0 0 = .ok (some (ns, ne)))
+    (h9 : par5.getLine = (l3o, par6))
+    (h10 : par6.s.eof = true ∨ ∃ l3, l3o = some l3 ∧ startsWith l3.content "**********" = true) :
+    parseContextHunk par = .ok (ols', os, [], ns, par6) := by
+  unfold parseContextHunk
+  simp only [h1, h2, h3, h4, h5, h6, h7, h8, h9]
+  rcases h10 with h | ⟨l3, rfl, h⟩
+  · simp [h]
+  · simp [h]
+
+theorem rangeEnd_eq (r : Range) (k : Nat) (hk : 1 ≤ k) (hc : r.count = (k : Int)) :
+    r.start + (k : Int) = rangeEnd r + 1 := by
+  unfold rangeEnd; split <;> omega
+
+theorem noBackslash_new (r : Range) (rest : List Line) : NoBackslash (lfLine (newRangeText r) :: rest) :=
+  noBackslash_cons 45 _ rest (by decide)
+
+theorem noBackslash_stars (rest : List Line) : NoBackslash (lfLine starsText :: rest) :=
+  noBackslash_cons 42 _ rest (by decide)
+
+/-- old half omitted -/
+theorem parseHunk_oldOmitted (NR : NumberRoundtrip) (pre : List Line) (hpre : pre = [] ∨ pre = [lfLine starsText])
+    (N : List PatchLine) (oR nR : Range) (hoR : RangeOK oR) (hnR : RangeOK nR)
+    (hnc : nR.count = (N.length : Int)) (hN : N ≠ []) (hnops : ∀ l ∈ N, HalfOp l.op)
+    (tail : List Line) (htail : NoBackslash tail) (n : Nat) :
+    ∃ n', parseContextHunk (mkPar (pre ++ ((halvesTexts [] oR N nR).map lfLine ++ tail)) n)
+      = .ok ([], oR.start, readBack N, nR.start, mkPar tail n') := by
+  rw [hunkLines_eq, halfLines_nil, List.nil_append, halfLines_eq]
+  generalize hX : (N.map halfText).map lfLine ++ ((if lastNone N then [lfLine markerText] else []) ++ tail) = X
+  obtain ⟨n1, h1⟩ := skip_pre NR pre hpre oR hoR (pre ++ lfLine (oldRangeText oR) :: lfLine (newRangeText nR) :: X).length
+    (lfLine (newRangeText nR) :: X) n 0 0
+  have h2 := getLine_lf (newRangeText nR) X n1
+  have h3 := parseNewRange_new NR nR hnR 0 0
+  have hlen : 1 ≤ N.length := List.length_pos_iff.mpr hN
+  subst hX
+  obtain ⟨ls, par3, n', h4, h5⟩ := read_half N hnops [] (lastNone N)
+    ((pre ++ lfLine (oldRangeText oR) :: lfLine (newRangeText nR) ::
+      ((N.map halfText).map lfLine ++ ((if lastNone N then [lfLine markerText] else []) ++ tail))).length + 2)
+    tail htail (n1 + 1) nR.start (rangeEnd nR)
+    (by simp; omega) (by simpa using rangeEnd_eq nR N.length hlen hnc) (by simpa using hN)
+  exact ⟨n', parseHunk_stages_oldOmitted _ _ _ _ _ _ _ _ _ _ _ _ h1 h2 h3 h4 h5⟩
+
+theorem halfLines_cons (t : PatchLine) (ts : List PatchLine) (tail : List Line) :
+    halfLines (t :: ts) ++ tail =
+      lfLine (halfText t) :: ((ts.map halfText).map lfLine
+        ++ ((if lastNone (t :: ts) then [lfLine markerText] else []) ++ tail)) := by
+  rw [halfLines_eq]; rfl
+
+/-- both halves present -/
+theorem parseHunk_both (NR : NumberRoundtrip) (pre : List Line) (hpre : pre = [] ∨ pre = [lfLine starsText])
+    (O N : List PatchLine) (oR nR : Range) (hoR : RangeOK oR) (hnR : RangeOK nR)
+    (hoc : oR.count = (O.length : Int)) (hnc : nR.count = (N.length : Int)) (hO : O ≠ []) (hN : N ≠ [])
+    (hoops : ∀ l ∈ O, HalfOp l.op) (hnops : ∀ l ∈ N, HalfOp l.op)
+    (tail : List Line) (htail : NoBackslash tail) (n : Nat) :
+    ∃ n', parseContextHunk (mkPar (pre ++ ((halvesTexts O oR N nR).map lfLine ++ tail)) n)
+      = .ok (readBack O, oR.start, readBack N, nR.start, mkPar tail n') := by
+  obtain ⟨o1, O', rfl⟩ := List.exists_cons_of_ne_nil hO
+  obtain ⟨n1, N', rfl⟩ := List.exists_cons_of_ne_nil hN
+  rw [hunkLines_eq, halfLines_cons n1 N', halfLines_cons o1 O']
+  generalize hY : (N'.map halfText).map lfLine ++ ((if lastNone (n1 :: N') then [lfLine markerText] else []) ++ tail) = Y
+  generalize hX : (O'.map halfText).map lfLine ++ ((if lastNone (o1 :: O') then [lfLine markerText] else [])
+    ++ lfLine (newRangeText nR) :: lfLine (halfText n1) :: Y) = X
+  generalize hF : (mkPar (pre ++ lfLine (oldRangeText oR) :: lfLine (halfText o1) :: X) n).s.rest.length = F
+  have hF' : (pre ++ lfLine (oldRangeText oR) :: lfLine (halfText o1) :: X).length = F := hF
+  obtain ⟨k1, h1⟩ := skip_pre NR pre hpre oR hoR F (lfLine (halfText o1) :: X) n 0 0
+  have h2 := getLine_lf (halfText o1) X k1
+  have h3 := parseNewRange_half o1 0 0
+  have h4 := appendLine_half [] o1 (hoops o1 (by simp))
+  subst hX
+  obtain ⟨ols, par3, k2, h5, h6⟩ := read_half O' (fun l hl => hoops l (by simp [hl])) [o1] (lastNone (o1 :: O'))
+    (F + 2) _ (noBackslash_new nR (lfLine (halfText n1) :: Y)) (k1 + 1) oR.start (rangeEnd oR)
+    (by rw [← hF']; simp; omega)
+    (by have := rangeEnd_eq oR (O'.length + 1) (by omega) (by simpa using hoc); simp only [List.length_singleton]; omega)
+    (by simp)
+  have h7 := getLine_lf (newRangeText nR) (lfLine (halfText n1) :: Y) k2
+  have h8 := parseNewRange_new NR nR hnR 0 0
+  have h9 := getLine_lf (halfText n1) Y (k2 + 1)
+  have h11 := startsWith_half_stars10 n1.op n1.line.content
+  have h12 := appendLine_half [] n1 (hnops n1 (by simp))
+  subst hY
+  obtain ⟨nls, par7, k3, h13, h14⟩ := read_half N' (fun l hl => hnops l (by simp [hl])) [n1] (lastNone (n1 :: N'))
+    (F + 2) tail htail (k2 + 1 + 1) nR.start (rangeEnd nR)
+    (by rw [← hF']; simp; omega)
+    (by have := rangeEnd_eq nR (N'.length + 1) (by omega) (by simpa using hnc); simp only [List.length_singleton]; omega)
+    (by simp)
+  refine ⟨k3, ?_⟩
+  have := parseHunk_stages_both (mkPar (pre ++ lfLine (oldRangeText oR) :: lfLine (halfText o1) :: _) n)
+    _ _ _ _ _ _ _ _ _ _ _ _ _ _ _ _ _ _ _ _ _ (hF.symm ▸ h1) h2 h3 h4 (hF.symm ▸ h5) h6 h7 h8 h9 rfl h11 h12 (hF.symm ▸ h13) h14
+  exact this
+
+/-- new half omitted: the line after the new range is consumed (the separator) or the input ends -/
+theorem parseHunk_newOmitted (NR : NumberRoundtrip) (pre : List Line) (hpre : pre = [] ∨ pre = [lfLine starsText])
+    (O : List PatchLine) (oR nR : Range) (hoR : RangeOK oR) (hnR : RangeOK nR)
+    (hoc : oR.count = (O.length : Int)) (hO : O ≠ [])
+    (hoops : ∀ l ∈ O, HalfOp l.op)
+    (tail : List Line) (htail : tail = [] ∨ ∃ more, tail = lfLine starsText :: more) (n : Nat) :
+    ∃ par', parseContextHunk (mkPar (pre ++ ((halvesTexts O oR [] nR).map lfLine ++ tail)) n)
+        = .ok (readBack O, oR.start, [], nR.start, par') ∧
+      ((tail = [] ∧ par'.s.rest = []) ∨ ∃ more n', tail = lfLine starsText :: more ∧ par' = mkPar more n') := by
+  obtain ⟨o1, O', rfl⟩ := List.exists_cons_of_ne_nil hO
+  rw [hunkLines_eq, halfLines_nil, List.nil_append, halfLines_cons o1 O']
+  generalize hX : (O'.map halfText).map lfLine ++ ((if lastNone (o1 :: O') then [lfLine markerText] else [])
+    ++ lfLine (newRangeText nR) :: tail) = X
+  generalize hF : (mkPar (pre ++ lfLine (oldRangeText oR) :: lfLine (halfText o1) :: X) n).s.rest.length = F
+  have hF' : (pre ++ lfLine (oldRangeText oR) :: lfLine (halfText o1) :: X).length = F := hF
+  obtain ⟨k1, h1⟩ := skip_pre NR pre hpre oR hoR F (lfLine (halfText o1) :: X) n 0 0
+  have h2 := getLine_lf (halfText o1) X k1
+  have h3 := parseNewRange_half o1 0 0
+  have h4 := appendLine_half [] o1 (hoops o1 (by simp))
+  subst hX
+  obtain ⟨ols, par3, k2, h5, h6⟩ := read_half O' (fun l hl => hoops l (by simp [hl])) [o1] (lastNone (o1 :: O'))
+    (F + 2) _ (noBackslash_new nR tail) (k1 + 1) oR.start (rangeEnd oR)
+    (by rw [← hF']; simp; omega)
+    (by have := rangeEnd_eq oR (O'.length + 1) (by omega) (by simpa using hoc); simp only [List.length_singleton]; omega)
+    (by simp)
+  have h7 := getLine_lf (newRangeText nR) tail k2
+  have h8 := parseNewRange_new NR nR hnR 0 0
+  rcases htail with rfl | ⟨more, rfl⟩
+  · have h9 := getLine_nil (k2 + 1)
+    refine ⟨eofPar (k2 + 1), ?_, .inl ⟨rfl, rfl⟩⟩
+    exact parseHunk_stages_newOmitted (mkPar (pre ++ lfLine (oldRangeText oR) :: lfLine (halfText o1) :: _) n)
+      _ _ _ _ _ _ _ _ _ _ _ _ _ _ _ _ (hF.symm ▸ h1) h2 h3 h4 (hF.symm ▸ h5) h6 h7 h8 h9 (.inl rfl)
+  · have h9 := getLine_lf starsText more (k2 + 1)
+    refine ⟨mkPar more (k2 + 1 + 1), ?_, .inr ⟨more, _, rfl, rfl⟩⟩
+    exact parseHunk_stages_newOmitted (mkPar (pre ++ lfLine (oldRangeText oR) :: lfLine (halfText o1) :: _) n)
+      _ _ _ _ _ _ _ _ _ _ _ _ _ _ _ _ (hF.symm ▸ h1) h2 h3 h4 (hF.symm ▸ h5) h6 h7 h8 h9
+      (.inr ⟨_, rfl, startsWith_stars_stars10⟩)
+
+/-! ### `hunkFromContextParts` -/
+
+/-- `h'` is `h` with lines added whose old side is `ol` and whose new side is `nl` -/
+def Added (h h' : Hunk) (ol nl : List Line) : Prop :=
+  oldOf h'.lines = oldOf h.lines ++ ol ∧ newOf h'.lines = newOf h.lines ++ nl ∧
+  h'.old = ⟨h.old.start, h.old.count + ol.length⟩ ∧ h'.new = ⟨h.new.start, h.new.count + nl.length⟩
+
+theorem Added.refl (h : Hunk) : Added h h [] [] := by
+  simp [Added]
+
+theorem Added.trans {h h1 h2 : Hunk} {a b a' b' : List Line} (x : Added h h1 a b) (y : Added h1 h2 a' b') :
+    Added h h2 (a ++ a') (b ++ b') := by
+  obtain ⟨x1, x2, x3, x4⟩ := x
+  obtain ⟨y1, y2, y3, y4⟩ := y
+  refine ⟨by rw [y1, x1, List.append_assoc], by rw [y2, x2, List.append_assoc], ?_, ?_⟩
+  · rw [y3, x3]; simp only [List.length_append, Range.mk.injEq, true_and]; omega
+  · rw [y4, x4]; simp only [List.length_append, Range.mk.injEq, true_and]; omega
+
+theorem Added.old (h : Hunk) (l : Line) :
+    Added h { h with lines := h.lines ++ [⟨MINUS, l⟩], old := { h.old with count := h.old.count + 1 } } [l] [] := by
+  refine ⟨?_, ?_, ?_, ?_⟩
+  · simp [oldOf_append]; simp [oldOf, MINUS, PLUS]
+  · simp [newOf_append]; simp [newOf]
+  · simp
+  · simp
+
+theorem Added.new (h : Hunk) (l : Line) :
+    Added h { h with lines := h.lines ++ [⟨PLUS, l⟩], new := { h.new with count := h.new.count + 1 } } [] [l] := by
+  refine ⟨?_, ?_, ?_, ?_⟩
+  · simp [oldOf_append]; simp [oldOf]
+  · simp [newOf_append]; simp [newOf, MINUS, PLUS]
+  · simp
+  · simp
+
+theorem Added.both (h : Hunk) (l : Line) :
+    Added h { h with lines := h.lines ++ [⟨SP, l⟩], old := { h.old with count := h.old.count + 1 },
+                     new := { h.new with count := h.new.count + 1 } } [l] [l] := by
+  refine ⟨?_, ?_, ?_, ?_⟩
+  · simp [oldOf_append]; simp [oldOf, SP, PLUS]
+  · simp [newOf_append]; simp [newOf, SP, MINUS]
+  · simp
+  · simp
+
+theorem ctxs_cons_sp (l : Line) (ls : List PatchLine) : ctxs (⟨SP, l⟩ :: ls) = l :: ctxs ls := by
+  simp [ctxs]
+
+theorem ctxs_cons_ne (op : UInt8) (l : Line) (ls : List PatchLine) (h : op ≠ SP) : ctxs (⟨op, l⟩ :: ls) = ctxs ls := by
+  simp [ctxs, h]
+
+theorem BANG_beq_MINUS : (BANG == MINUS) = false := by decide
+theorem SP_beq_MINUS : (SP == MINUS) = false := by decide
+theorem SP_beq_PLUS : (SP == PLUS) = false := by decide
+theorem SP_beq_BANG : (SP == BANG) = false := by decide
+theorem BANG_beq_PLUS : (BANG == PLUS) = false := by decide
+theorem BANG_beq_SP : (BANG == SP) = false := by decide
+theorem PLUS_beq_BANG : (PLUS == BANG) = false := by decide
+theorem MINUS_ne_SP : MINUS ≠ SP := by decide
+theorem PLUS_ne_SP : PLUS ≠ SP := by decide
+
+theorem go_nil_right : ∀ (ol : List PatchLine), OldOps ol → ∀ (fuel : Nat) (h : Hunk), ol.length ≤ fuel →
+    ∃ h', hunkFromContextParts.go fuel ol [] h = .ok h' ∧ Added h h' (ol.map (·.line)) (ctxs ol) := by
+  intro ol
+  induction ol with
+  | nil =>
+    intro _ fuel h _
+    refine ⟨h, ?_, Added.refl h⟩
+    cases fuel <;> simp [hunkFromContextParts.go]
+  | cons o ol ih =>
+    intro hops fuel h hf
+    cases fuel with
+    | zero => simp at hf
+    | succ fuel =>
+      have hops' : OldOps ol := fun l hl => hops l (by simp [hl])
+      have hf' : ol.length ≤ fuel := by simpa using hf
+      rcases o with ⟨op, l⟩
+      rcases hops ⟨op, l⟩ (by simp) with hop | hop | hop <;> simp only at hop <;> subst hop
+      · obtain ⟨h', hg, ha⟩ := ih hops' fuel _ hf'
+        refine ⟨h', ?_, ?_⟩
+        · simp only [hunkFromContextParts.go, List.head?_cons, List.head?_nil, List.tail_cons, SP_beq_MINUS,
+            SP_beq_BANG, beq_self_eq_true, Bool.false_eq_true, if_false, if_true]
+          exact hg
+        · rw [List.map_cons, ctxs_cons_sp]
+          exact (Added.both h l).trans ha
+      · obtain ⟨h', hg, ha⟩ := ih hops' fuel _ hf'
+        refine ⟨h', ?_, ?_⟩
+        · simp only [hunkFromContextParts.go, List.head?_cons, List.head?_nil, List.tail_cons,
+            beq_self_eq_true, Bool.false_eq_true, if_false, if_true]
+          exact hg
+        · rw [List.map_cons, ctxs_cons_ne _ _ _ MINUS_ne_SP]
+          exact (Added.old h l).trans ha
+      · obtain ⟨h', hg, ha⟩ := ih hops' fuel _ hf'
+        refine ⟨h', ?_, ?_⟩
+        · simp only [hunkFromContextParts.go, List.head?_cons, List.head?_nil, List.tail_cons, BANG_beq_MINUS,
+            beq_self_eq_true, Bool.false_eq_true, if_false, if_true]
+          exact hg
+        · rw [List.map_cons, ctxs_cons_ne _ _ _ BANG_ne_SP]
+          exact (Added.old h l).trans ha
+
+theorem go_nil_left : ∀ (nl : List PatchLine), NewOps nl → ∀ (fuel : Nat) (h : Hunk), nl.length ≤ fuel →
+    ∃ h', hunkFromContextParts.go fuel [] nl h = .ok h' ∧ Added h h' (ctxs nl) (nl.map (·.line)) := by
+  intro nl
+  induction nl with
+  | nil =>
+    intro _ fuel h _
+    refine ⟨h, ?_, Added.refl h⟩
+    cases fuel <;> simp [hunkFromContextParts.go]
+  | cons o nl ih =>
+    intro hops fuel h hf
+    cases fuel with
+    | zero => simp at hf
+    | succ fuel =>
+      have hops' : NewOps nl := fun l hl => hops l (by simp [hl])
+      have hf' : nl.length ≤ fuel := by simpa using hf
+      rcases o with ⟨op, l⟩
+      rcases hops ⟨op, l⟩ (by simp) with hop | hop | hop <;> simp only at hop <;> subst hop
+      · obtain ⟨h', hg, ha⟩ := ih hops' fuel _ hf'
+        refine ⟨h', ?_, ?_⟩
+        · simp only [hunkFromContextParts.go, List.head?_cons, List.head?_nil, List.tail_cons, SP_beq_PLUS,
+            SP_beq_BANG, beq_self_eq_true, Bool.false_eq_true, if_false, if_true]
+          exact hg
+        · rw [List.map_cons, ctxs_cons_sp]
+          exact (Added.both h l).trans ha
+      · obtain ⟨h', hg, ha⟩ := ih hops' fuel _ hf'
+        refine ⟨h', ?_, ?_⟩
+        · simp only [hunkFromContextParts.go, List.head?_cons, List.head?_nil, List.tail_cons,
+            beq_self_eq_true, if_true]
+          exact hg
+        · rw [List.map_cons, ctxs_cons_ne _ _ _ PLUS_ne_SP]
+          exact (Added.new h l).trans ha
+      · obtain ⟨h', hg, ha⟩ := ih hops' fuel _ hf'
+        refine ⟨h', ?_, ?_⟩
+        · simp only [hunkFromContextParts.go, List.head?_cons, List.head?_nil, List.tail_cons, BANG_beq_PLUS,
+            beq_self_eq_true, Bool.false_eq_true, if_false, if_true]
+          exact hg
+        · rw [List.map_cons, ctxs_cons_ne _ _ _ BANG_ne_SP]
+          exact (Added.new h l).trans ha
+
+theorem go_both : ∀ (fuel : Nat) (ol nl : List PatchLine) (h : Hunk), OldOps ol → NewOps nl → ctxs ol = ctxs nl →
+    ol.length + nl.length ≤ fuel →
+    ∃ h', hunkFromContextParts.go fuel ol nl h = .ok h' ∧ Added h h' (ol.map (·.line)) (nl.map (·.line)) := by
+  intro fuel
+  induction fuel with
+  | zero =>
+    intro ol nl h _ _ _ hf
+    have h1 : ol = [] := by cases ol with | nil => rfl | cons a b => simp at hf
+    have h2 : nl = [] := by cases nl with | nil => rfl | cons a b => simp at hf
+    subst h1 h2
+    exact ⟨h, rfl, Added.refl h⟩
+  | succ fuel ih =>
+    intro ol nl h hoo hno hc hf
+    cases ol with
+    | nil =>
+      obtain ⟨h', hg, ha⟩ := go_nil_left nl hno (fuel + 1) h (by simpa using hf)
+      refine ⟨h', hg, ?_⟩
+      rw [← hc] at ha
+      exact ha
+    | cons o ol =>
+      cases nl with
+      | nil =>
+        obtain ⟨h', hg, ha⟩ := go_nil_right (o :: ol) hoo (fuel + 1) h (by simpa using hf)
+        refine ⟨h', hg, ?_⟩
+        rw [hc] at ha
+        exact ha
+      | cons n nl =>
+        have hoo' : OldOps ol := fun l hl => hoo l (by simp [hl])
+        have hno' : NewOps nl := fun l hl => hno l (by simp [hl])
+        simp only [List.length_cons] at hf
+        rcases o with ⟨oop, ol1⟩
+        rcases n with ⟨nop, nl1⟩
+        rcases hoo ⟨oop, ol1⟩ (by simp) with hop | hop | hop <;> simp only at hop <;> subst hop
+        · -- old context line
+          rcases hno ⟨nop, nl1⟩ (by simp) with hop | hop | hop <;> simp only at hop <;> subst hop
+          · rw [ctxs_cons_sp, ctxs_cons_sp] at hc
+            obtain ⟨hl, hc'⟩ := List.cons.inj hc
+            subst hl
+            obtain ⟨h', hg, ha⟩ := ih ol nl _ hoo' hno' hc' (by omega)
+            refine ⟨h', ?_, ?_⟩
+            · simp only [hunkFromContextParts.go, List.head?_cons, List.tail_cons, SP_beq_MINUS, SP_beq_PLUS,
+                SP_beq_BANG, beq_self_eq_true, Bool.false_eq_true, if_false, if_true, ne_eq, not_true_eq_false,
+                Bool.and_self]
+              exact hg
+            · exact (Added.both h ol1).trans ha
+          · rw [ctxs_cons_ne _ _ nl PLUS_ne_SP] at hc
+            obtain ⟨h', hg, ha⟩ := ih (⟨SP, ol1⟩ :: ol) nl _ hoo hno' hc (by simp only [List.length_cons]; omega)
+            refine ⟨h', ?_, ?_⟩
+            · simp only [hunkFromContextParts.go, List.head?_cons, List.tail_cons, SP_beq_MINUS,
+                beq_self_eq_true, Bool.false_eq_true, if_false, if_true]
+              exact hg
+            · exact (Added.new h nl1).trans ha
+          · rw [ctxs_cons_ne _ _ nl BANG_ne_SP] at hc
+            obtain ⟨h', hg, ha⟩ := ih (⟨SP, ol1⟩ :: ol) nl _ hoo hno' hc (by simp only [List.length_cons]; omega)
+            refine ⟨h', ?_, ?_⟩
+            · simp only [hunkFromContextParts.go, List.head?_cons, List.tail_cons, SP_beq_MINUS, BANG_beq_PLUS,
+                SP_beq_BANG, beq_self_eq_true, Bool.false_eq_true, if_false, if_true]
+              exact hg
+            · exact (Added.new h nl1).trans ha
+        · -- old '-' line
+          rw [ctxs_cons_ne _ _ ol MINUS_ne_SP] at hc
+          obtain ⟨h', hg, ha⟩ := ih ol (⟨nop, nl1⟩ :: nl) _ hoo' hno hc (by simp only [List.length_cons]; omega)
+          refine ⟨h', ?_, ?_⟩
+          · simp only [hunkFromContextParts.go, List.head?_cons, List.tail_cons, beq_self_eq_true, if_true]
+            exact hg
+          · exact (Added.old h ol1).trans ha
+        · -- old '!' line
+          rw [ctxs_cons_ne _ _ ol BANG_ne_SP] at hc
+          rcases hno ⟨nop, nl1⟩ (by simp) with hop | hop | hop <;> simp only at hop <;> subst hop
+          · obtain ⟨h', hg, ha⟩ := ih ol (⟨SP, nl1⟩ :: nl) _ hoo' hno hc (by simp only [List.length_cons]; omega)
+            refine ⟨h', ?_, ?_⟩
+            · simp only [hunkFromContextParts.go, List.head?_cons, List.tail_cons, BANG_beq_MINUS, SP_beq_PLUS,
+                beq_self_eq_true, Bool.false_eq_true, if_false, if_true]
+              exact hg
+            · exact (Added.old h ol1).trans ha
+          · rw [ctxs_cons_ne _ _ nl PLUS_ne_SP] at hc
+            obtain ⟨h', hg, ha⟩ := ih (⟨BANG, ol1⟩ :: ol) nl _ hoo hno' hc (by simp only [List.length_cons]; omega)
+            refine ⟨h', ?_, ?_⟩
+            · simp only [hunkFromContextParts.go, List.head?_cons, List.tail_cons, BANG_beq_MINUS,
+                beq_self_eq_true, Bool.false_eq_true, if_false, if_true]
+              exact hg
+            · exact (Added.new h nl1).trans ha
+          · obtain ⟨h', hg, ha⟩ := ih ol (⟨BANG, nl1⟩ :: nl) _ hoo' hno hc (by simp only [List.length_cons]; omega)
+            refine ⟨h', ?_, ?_⟩
+            · simp only [hunkFromContextParts.go, List.head?_cons, List.tail_cons, BANG_beq_MINUS, BANG_beq_PLUS,
+                beq_self_eq_true, Bool.false_eq_true, if_false, if_true]
+              exact hg
+            · exact (Added.old h ol1).trans ha
+
+theorem Added.init {os ns : Int} {h' : Hunk} {a b : List Line} (x : Added ⟨⟨os, 0⟩, ⟨ns, 0⟩, []⟩ h' a b) :
+    oldOf h'.lines = a ∧ newOf h'.lines = b ∧ h'.old = ⟨os, a.length⟩ ∧ h'.new = ⟨ns, b.length⟩ := by
+  obtain ⟨x1, x2, x3, x4⟩ := x
+  refine ⟨by simpa [oldOf] using x1, by simpa [newOf] using x2, by simpa using x3, by simpa using x4⟩
+
+theorem hunkFromParts_both (os ns : Int) (ol nl : List PatchLine) (hoo : OldOps ol) (hno : NewOps nl)
+    (hc : ctxs ol = ctxs nl) :
+    ∃ h', hunkFromContextParts os ol ns nl = .ok h' ∧ oldOf h'.lines = ol.map (·.line) ∧
+      newOf h'.lines = nl.map (·.line) ∧ h'.old = ⟨os, ol.length⟩ ∧ h'.new = ⟨ns, nl.length⟩ := by
+  obtain ⟨h', hg, ha⟩ := go_both (ol.length + nl.length + 1) ol nl ⟨⟨os, 0⟩, ⟨ns, 0⟩, []⟩ hoo hno hc (by omega)
+  have := ha.init
+  simp only [List.length_map] at this
+  exact ⟨h', hg, this⟩
+
+theorem hunkFromParts_oldOmitted (os ns : Int) (nl : List PatchLine) (hno : NewOps nl) :
+    ∃ h', hunkFromContextParts os [] ns nl = .ok h' ∧ oldOf h'.lines = ctxs nl ∧
+      newOf h'.lines = nl.map (·.line) ∧ h'.old = ⟨os, (ctxs nl).length⟩ ∧ h'.new = ⟨ns, nl.length⟩ := by
+  obtain ⟨h', hg, ha⟩ := go_nil_left nl hno (([] : List PatchLine).length + nl.length + 1) ⟨⟨os, 0⟩, ⟨ns, 0⟩, []⟩
+    (by simp)
+  have := ha.init
+  simp only [List.length_map] at this
+  exact ⟨h', hg, this⟩
+
+theorem hunkFromParts_newOmitted (os ns : Int) (ol : List PatchLine) (hoo : OldOps ol) :
+    ∃ h', hunkFromContextParts os ol ns [] = .ok h' ∧ oldOf h'.lines = ol.map (·.line) ∧
+      newOf h'.lines = ctxs ol ∧ h'.old = ⟨os, ol.length⟩ ∧ h'.new = ⟨ns, (ctxs ol).length⟩ := by
+  obtain ⟨h', hg, ha⟩ := go_nil_right ol hoo (ol.length + ([] : List PatchLine).length + 1) ⟨⟨os, 0⟩, ⟨ns, 0⟩, []⟩
+    (by simp)
+  have := ha.init
+  simp only [List.length_map] at this
+  exact ⟨h', hg, this⟩
+
+/-! ### the missing-newline marker: only the last line of a side can carry it -/
+
+def NoneOnlyLast : List Line → Prop
+  | [] => True
+  | [_] => True
+  | x :: y :: r => x.newline ≠ .none ∧ NoneOnlyLast (y :: r)
+
+theorem NoneOnlyLast_cons (x : Line) (xs : List Line) (h1 : xs ≠ [] → x.newline ≠ .none) (h2 : NoneOnlyLast xs) :
+    NoneOnlyLast (x :: xs) := by
+  cases xs with
+  | nil => trivial
+  | cons y r => exact ⟨h1 (by simp), h2⟩
+
+theorem isEmpty_oldOf_of_isEmpty {rest : List PatchLine} (h : rest.isEmpty = true) : oldOf rest = [] := by
+  have : rest = [] := by simpa using h
+  subst this; rfl
+
+theorem noneOnlyLast_oldOf (ls : List PatchLine) (h : noNlOnlyLast ls = true) : NoneOnlyLast (oldOf ls) := by
+  induction ls with
+  | nil => trivial
+  | cons pl rest ih =>
+    rw [noNlOnlyLast, Bool.and_eq_true] at h
+    obtain ⟨h1, h2⟩ := h
+    by_cases hp : pl.op = PLUS
+    · rw [Cpp.oldOf_cons_plus rest hp]; exact ih h2
+    · have : oldOf (pl :: rest) = pl.line :: oldOf rest := by simp [oldOf, hp]
+      rw [this]
+      apply NoneOnlyLast_cons _ _ _ (ih h2)
+      intro hne hnone
+      rw [if_pos hnone] at h1
+      split at h1
+      · exact hne (by simpa using h1)
+      · rename_i hm
+        split at h1
+        · rename_i hpp; exact hp (by simpa using hpp)
+        · have : rest = [] := by simpa using h1
+          subst this; exact hne rfl
+
+theorem noneOnlyLast_newOf (ls : List PatchLine) (h : noNlOnlyLast ls = true) : NoneOnlyLast (newOf ls) := by
+  induction ls with
+  | nil => trivial
+  | cons pl rest ih =>
+    rw [noNlOnlyLast, Bool.and_eq_true] at h
+    obtain ⟨h1, h2⟩ := h
+    by_cases hp : pl.op = MINUS
+    · rw [Cpp.newOf_cons_minus rest hp]; exact ih h2
+    · have : newOf (pl :: rest) = pl.line :: newOf rest := by simp [newOf, hp]
+      rw [this]
+      apply NoneOnlyLast_cons _ _ _ (ih h2)
+      intro hne hnone
+      rw [if_pos hnone] at h1
+      split at h1
+      · rename_i hm; exact hp (by simpa using hm)
+      · split at h1
+        · exact hne (by simpa using h1)
+        · have : rest = [] := by simpa using h1
+          subst this; exact hne rfl
+
+theorem markLastNone_concat (xs : List PatchLine) (x : PatchLine) :
+    markLastNone (xs ++ [x]) = xs ++ [⟨x.op, ⟨x.line.content, .none⟩⟩] := by
+  simp [markLastNone]
+
+theorem markLastNone_cons_cons (a b : PatchLine) (r : List PatchLine) :
+    markLastNone (a :: b :: r) = a :: markLastNone (b :: r) := by
+  rcases List.eq_nil_or_concat (b :: r) with h | ⟨init, last, h⟩
+  · cases h
+  · rw [h, List.concat_eq_append]
+    have : a :: (init ++ [last]) = (a :: init) ++ [last] := rfl
+    rw [this, markLastNone_concat, markLastNone_concat]; rfl
+
+theorem lastNone_cons_cons (a b : PatchLine) (r : List PatchLine) : lastNone (a :: b :: r) = lastNone (b :: r) := by
+  simp [lastNone, List.getLast?_cons_cons]
+
+theorem lfOf_of_ne_none (t : PatchLine) (h : t.line.newline ≠ .none) : lfOf t = t.normNl := by
+  simp [lfOf, PatchLine.normNl, Line.normNl, h]
+
+/-- the parser reads a half back with the LF/CRLF class forgotten and the marker on the last line kept -/
+theorem readBack_eq : ∀ (ts : List PatchLine), NoneOnlyLast (ts.map (·.line)) → readBack ts = ts.map PatchLine.normNl
+  | [], _ => by simp [readBack, lastNone]
+  | [t], _ => by
+    by_cases h : t.line.newline = .none
+    · simp [readBack, lastNone, h, markLastNone, lfOf, PatchLine.normNl, Line.normNl]
+    · simp [readBack, lastNone, h, lfOf, PatchLine.normNl, Line.normNl]
+  | t :: u :: r, h => by
+    obtain ⟨h1, h2⟩ := h
+    have ih := readBack_eq (u :: r) h2
+    unfold readBack at ih ⊢
+    rw [lastNone_cons_cons]
+    simp only [List.map_cons] at ih ⊢
+    rw [markLastNone_cons_cons, lfOf_of_ne_none t h1]
+    split
+    · rename_i hl; rw [if_pos hl] at ih; rw [ih]
+    · rename_i hl; rw [if_neg hl] at ih; rw [ih]
+
+theorem map_line_normNl (ts : List PatchLine) :
+    (ts.map PatchLine.normNl).map (·.line) = (ts.map (·.line)).map Line.normNl := by
+  simp [PatchLine.normNl]
+
+theorem ctxs_normNl (ts : List PatchLine) : ctxs (ts.map PatchLine.normNl) = (ctxs ts).map Line.normNl := by
+  induction ts with
+  | nil => rfl
+  | cons t ts ih =>
+    by_cases h : t.op = SP
+    · simp [ctxs, PatchLine.normNl, h] at ih ⊢; exact ih
+    · simp [ctxs, PatchLine.normNl, h] at ih ⊢; exact ih
+
+theorem oldOps_normNl {ts : List PatchLine} (h : OldOps ts) : OldOps (ts.map PatchLine.normNl) := by
+  intro l hl
+  obtain ⟨t, ht, rfl⟩ := List.mem_map.mp hl
+  exact h t ht
+
+theorem newOps_normNl {ts : List PatchLine} (h : NewOps ts) : NewOps (ts.map PatchLine.normNl) := by
+  intro l hl
+  obtain ⟨t, ht, rfl⟩ := List.mem_map.mp hl
+  exact h t ht
+
+theorem normNl_idem (l : Line) : l.normNl.normNl = l.normNl := by
+  unfold Line.normNl
+  by_cases h : l.newline = .none <;> simp [h]
+
+theorem map_normNl_idem (ls : List Line) : (ls.map Line.normNl).map Line.normNl = ls.map Line.normNl := by
+  simp [normNl_idem]
+
+/-! ### one hunk: written, split into lines, parsed -/
+
+theorem halfOp_of_oldOps {ls : List PatchLine} (h : OldOps ls) : ∀ l ∈ ls, HalfOp l.op := by
+  intro l hl
+  rcases h l hl with h | h | h
+  · exact .inl h
+  · exact .inr (.inr (.inl h))
+  · exact .inr (.inr (.inr h))
+
+theorem halfOp_of_newOps {ls : List PatchLine} (h : NewOps ls) : ∀ l ∈ ls, HalfOp l.op := by
+  intro l hl
+  rcases h l hl with h | h | h
+  · exact .inl h
+  · exact .inr (.inl h)
+  · exact .inr (.inr (.inr h))
+
+theorem halfOp_ne_NL {op : UInt8} (h : HalfOp op) : op ≠ NL := by
+  rcases h with h | h | h | h <;> rw [h] <;> decide
+
+theorem plain_halvesTexts (O N : List PatchLine) (oR nR : Range) (hoR : RangeOK oR) (hnR : RangeOK nR)
+    (hO : ∀ l ∈ O, HalfOp l.op ∧ plainLine l.line = true) (hN : ∀ l ∈ N, HalfOp l.op ∧ plainLine l.line = true) :
+    ∀ t ∈ halvesTexts O oR N nR, PlainText t := by
+  intro t ht
+  unfold halvesTexts at ht
+  rcases List.mem_cons.mp ht with rfl | ht
+  · exact plain_oldRangeText oR hoR.1 hoR.2.1
+  rcases List.mem_append.mp ht with ht | ht
+  · exact plain_halfTexts O (fun l hl => halfOp_ne_NL (hO l hl).1) (fun l hl => (hO l hl).2) t ht
+  rcases List.mem_cons.mp ht with rfl | ht
+  · exact plain_newRangeText nR hnR.1 hnR.2.1
+  · exact plain_halfTexts N (fun l hl => halfOp_ne_NL (hN l hl).1) (fun l hl => (hN l hl).2) t ht
+
+theorem oldOf_eq_ctxs (L : List PatchLine) (hops : ∀ pl ∈ L, pl.op = SP ∨ pl.op = PLUS ∨ pl.op = MINUS)
+    (h : L.all (·.op != MINUS) = true) : oldOf L = ctxs L := by
+  induction L with
+  | nil => rfl
+  | cons pl L ih =>
+    simp only [List.all_cons, Bool.and_eq_true, bne_iff_ne, ne_eq] at h
+    have ih' := ih (fun p hp => hops p (by simp [hp])) h.2
+    rcases pl with ⟨op, l⟩
+    rcases hops ⟨op, l⟩ (by simp) with hp | hp | hp <;> simp only at hp <;> subst hp
+    · rw [Cpp.oldOf_cons_sp L rfl, ih', ctxs_cons_sp]
+    · rw [Cpp.oldOf_cons_plus L rfl, ih', ctxs_cons_ne _ _ _ PLUS_ne_SP]
+    · exact absurd rfl h.1
+
+theorem newOf_eq_ctxs (L : List PatchLine) (hops : ∀ pl ∈ L, pl.op = SP ∨ pl.op = PLUS ∨ pl.op = MINUS)
+    (h : L.all (·.op != PLUS) = true) : newOf L = ctxs L := by
+  induction L with
+  | nil => rfl
+  | cons pl L ih =>
+    simp only [List.all_cons, Bool.and_eq_true, bne_iff_ne, ne_eq] at h
+    have ih' := ih (fun p hp => hops p (by simp [hp])) h.2
+    rcases pl with ⟨op, l⟩
+    rcases hops ⟨op, l⟩ (by simp) with hp | hp | hp <;> simp only at hp <;> subst hp
+    · rw [Cpp.newOf_cons_sp L rfl, ih', ctxs_cons_sp]
+    · exact absurd rfl h.1
+    · rw [Cpp.newOf_cons_minus L rfl, ih', ctxs_cons_ne _ _ _ MINUS_ne_SP]
+
+theorem oldOf_ne_nil_of_minus (L : List PatchLine) (h : L.all (·.op != MINUS) = false) : oldOf L ≠ [] := by
+  intro hn
+  have : L.all (·.op != MINUS) = true := by
+    rw [List.all_eq_true]
+    intro pl hpl
+    by_cases hm : pl.op = MINUS
+    · exfalso
+      have : pl.line ∈ oldOf L := by
+        unfold oldOf
+        exact List.mem_map.mpr ⟨pl, List.mem_filter.mpr ⟨hpl, by rw [hm]; decide⟩, rfl⟩
+      rw [hn] at this; cases this
+    · simpa using hm
+  rw [this] at h; cases h
+
+theorem newOf_ne_nil_of_noMinus (L : List PatchLine) (hne : L ≠ []) (h : L.all (·.op != MINUS) = true) :
+    newOf L ≠ [] := by
+  cases L with
+  | nil => exact absurd rfl hne
+  | cons pl L =>
+    simp only [List.all_cons, Bool.and_eq_true] at h
+    simp [newOf, h.1]
+
+theorem mem_oldOf_line {L : List PatchLine} {l : Line} (h : l ∈ oldOf L) : ∃ pl ∈ L, pl.line = l := by
+  unfold oldOf at h
+  obtain ⟨pl, hpl, rfl⟩ := List.mem_map.mp h
+  exact ⟨pl, (List.mem_filter.mp hpl).1, rfl⟩
+
+theorem mem_newOf_line {L : List PatchLine} {l : Line} (h : l ∈ newOf L) : ∃ pl ∈ L, pl.line = l := by
+  unfold newOf at h
+  obtain ⟨pl, hpl, rfl⟩ := List.mem_map.mp h
+  exact ⟨pl, (List.mem_filter.mp hpl).1, rfl⟩
+
+/-- what `writable` says -/
+theorem writable_spec (h : Hunk) (hw : h.writable = true) :
+    (∀ pl ∈ h.lines, pl.op = SP ∨ pl.op = PLUS ∨ pl.op = MINUS) ∧
+    h.old.count = ((oldOf h.lines).length : Int) ∧ h.new.count = ((newOf h.lines).length : Int) ∧
+    h.lines ≠ [] ∧ (∀ pl ∈ h.lines, plainLine pl.line = true) ∧ noNlOnlyLast h.lines = true ∧
+    0 ≤ h.old.start ∧ 0 ≤ h.new.start ∧ h.old.start + h.old.count ≤ i64Max ∧ h.new.start + h.new.count ≤ i64Max := by
+  unfold Hunk.writable Hunk.wfB at hw
+  simp only [Bool.and_eq_true, List.all_eq_true, Bool.or_eq_true, beq_iff_eq, decide_eq_true_eq,
+    Bool.not_eq_true', List.isEmpty_eq_false_iff] at hw
+  obtain ⟨⟨⟨⟨⟨⟨⟨⟨⟨h1, h2⟩, h3⟩, h4⟩, h5⟩, h6⟩, h7⟩, h8⟩, h9⟩, h10⟩ := hw
+  refine ⟨?_, h2, h3, h4, h5, h6, h7, h8, h9, h10⟩
+  intro pl hpl
+  rcases h1 pl hpl with (h | h) | h
+  · exact Or.inl h
+  · exact Or.inr (Or.inl h)
+  · exact Or.inr (Or.inr h)
+
+/-- the final state of the writer's loop and the text it writes -/
+theorem writeHunkContext_texts (h : Hunk) (hops : ∀ pl ∈ h.lines, pl.op = SP ∨ pl.op = PLUS ∨ pl.op = MINUS)
+    (b : Bytes) (hb : writeHunkContext h = .ok b) :
+    ∃ s, CtxInv h.lines s ∧
+      b = unlines (if s.allIns then halvesTexts [] h.old s.newLines h.new
+                   else if s.allDel then halvesTexts s.oldLines h.old [] h.new
+                   else halvesTexts s.oldLines h.old s.newLines h.new) := by
+  unfold writeHunkContext at hb
+  split at hb
+  · cases hb
+  · rename_i s hs
+    have hi := ctxFold_inv h h.lines [] {} s CtxInv.init hops hs
+    rw [List.nil_append] at hi
+    refine ⟨s, hi, ?_⟩
+    split at hb
+    · cases hb
+    · split at hb
+      · cases hb; rw [if_pos (by assumption), writeContextHalves_eq]
+      · split at hb
+        · cases hb; rw [if_neg (by assumption), if_pos (by assumption), writeContextHalves_eq]
+        · cases hb; rw [if_neg (by assumption), if_neg (by assumption), writeContextHalves_eq]
+
+/-- what may follow a hunk in a reject file: nothing, or the separator -/
+def TailOK (tail : List Line) : Prop := tail = [] ∨ ∃ more, tail = lfLine starsText :: more
+
+theorem TailOK.noBackslash {tail : List Line} (h : TailOK tail) : NoBackslash tail := by
+  rcases h with rfl | ⟨more, rfl⟩
+  · exact noBackslash_nil
+  · exact noBackslash_stars more
+
+/-- where the parser stands after a hunk -/
+def AfterHunk (tail : List Line) (par : Parser) : Prop :=
+  (tail = [] ∧ par.s.rest = []) ∨
+  ∃ more, tail = lfLine starsText :: more ∧ ∃ n', par = mkPar tail n' ∨ par = mkPar more n'
+
+/-- the text lines `ts` of one hunk are read back as a hunk denoting the same change as `h` -/
+def HunkRT (ts : List Bytes) (h : Hunk) : Prop :=
+  (∀ t ∈ ts, PlainText t) ∧ (∃ r rest, ts = oldRangeText r :: rest) ∧
+  ∀ (pre tail : List Line) (n : Nat), (pre = [] ∨ pre = [lfLine starsText]) → TailOK tail →
+    ∃ ol os nl ns par1 h', parseContextHunk (mkPar (pre ++ (ts.map lfLine ++ tail)) n) = .ok (ol, os, nl, ns, par1) ∧
+      hunkFromContextParts os ol ns nl = .ok h' ∧ sameChange h' h ∧ AfterHunk tail par1
+
+theorem range_eta (r : Range) (c : Int) (h : r.count = c) : (⟨r.start, c⟩ : Range) = r := by
+  cases r; simp at h; simp [h]
+
+theorem hunk_roundtrip (NR : NumberRoundtrip) (h : Hunk) (hw : h.writable = true) (b : Bytes)
+    (hb : writeHunkContext h = .ok b) : ∃ ts, b = unlines ts ∧ HunkRT ts h := by
+  obtain ⟨hops, hoc, hnc, hne, hplain, hnl, hos, hns, hob, hnb⟩ := writable_spec h hw
+  obtain ⟨s, hi, rfl⟩ := writeHunkContext_texts h hops b hb
+  have hoR : RangeOK h.old := ⟨hos, by omega, hob⟩
+  have hnR : RangeOK h.new := ⟨hns, by omega, hnb⟩
+  have hOl : s.oldLines.length = (oldOf h.lines).length := by rw [← hi.oldLine, List.length_map]
+  have hNl : s.newLines.length = (newOf h.lines).length := by rw [← hi.newLine, List.length_map]
+  have hoc' : h.old.count = (s.oldLines.length : Int) := by rw [hOl]; exact hoc
+  have hnc' : h.new.count = (s.newLines.length : Int) := by rw [hNl]; exact hnc
+  have hOp : ∀ l ∈ s.oldLines, HalfOp l.op ∧ plainLine l.line = true := by
+    intro l hl
+    refine ⟨halfOp_of_oldOps hi.oldOps l hl, ?_⟩
+    have : l.line ∈ oldOf h.lines := by rw [← hi.oldLine]; exact List.mem_map.mpr ⟨l, hl, rfl⟩
+    obtain ⟨pl, hpl, he⟩ := mem_oldOf_line this
+    rw [← he]; exact hplain pl hpl
+  have hNp : ∀ l ∈ s.newLines, HalfOp l.op ∧ plainLine l.line = true := by
+    intro l hl
+    refine ⟨halfOp_of_newOps hi.newOps l hl, ?_⟩
+    have : l.line ∈ newOf h.lines := by rw [← hi.newLine]; exact List.mem_map.mpr ⟨l, hl, rfl⟩
+    obtain ⟨pl, hpl, he⟩ := mem_newOf_line this
+    rw [← he]; exact hplain pl hpl
+  have hrbO : readBack s.oldLines = s.oldLines.map PatchLine.normNl :=
+    readBack_eq _ (by rw [hi.oldLine]; exact noneOnlyLast_oldOf _ hnl)
+  have hrbN : readBack s.newLines = s.newLines.map PatchLine.normNl :=
+    readBack_eq _ (by rw [hi.newLine]; exact noneOnlyLast_newOf _ hnl)
+  by_cases hIns : s.allIns = true
+  · -- all insertions: the old half is omitted
+    rw [if_pos hIns]
+    refine ⟨_, rfl, plain_halvesTexts _ _ _ _ hoR hnR (by simp) hNp, ⟨_, _, rfl⟩, ?_⟩
+    intro pre tail n hpre htail
+    have hall : h.lines.all (·.op != MINUS) = true := by rw [← hi.allIns]; exact hIns
+    have hN : s.newLines ≠ [] := by
+      intro hn; rw [hn] at hNl
+      exact newOf_ne_nil_of_noMinus _ hne hall (List.length_eq_zero_iff.mp hNl.symm)
+    obtain ⟨n', hp⟩ := parseHunk_oldOmitted NR pre hpre s.newLines h.old h.new hoR hnR hnc' hN
+      (halfOp_of_newOps hi.newOps) tail htail.noBackslash n
+    rw [hrbN] at hp
+    obtain ⟨h', hh, e1, e2, e3, e4⟩ := hunkFromParts_oldOmitted h.old.start h.new.start _ (newOps_normNl hi.newOps)
+    refine ⟨_, _, _, _, _, h', hp, hh, ⟨?_, ?_, ?_, ?_⟩, ?_⟩
+    · rw [e1, ctxs_normNl, hi.newCtx, map_normNl_idem, oldOf_eq_ctxs _ hops hall]
+    · rw [e2, map_line_normNl, hi.newLine, map_normNl_idem]
+    · rw [e3, ctxs_normNl, hi.newCtx, List.length_map, ← oldOf_eq_ctxs _ hops hall]
+      exact range_eta _ _ hoc
+    · rw [e4, List.length_map]
+      exact range_eta _ _ hnc'
+    · rcases htail with rfl | ⟨more, rfl⟩
+      · exact .inl ⟨rfl, rfl⟩
+      · exact .inr ⟨more, rfl, n', .inl rfl⟩
+  · rw [if_neg hIns]
+    have hIns' : h.lines.all (·.op != MINUS) = false := by
+      rw [← hi.allIns]; simpa using hIns
+    have hO : s.oldLines ≠ [] := by
+      intro hn; rw [hn] at hOl
+      exact oldOf_ne_nil_of_minus _ hIns' (List.length_eq_zero_iff.mp hOl.symm)
+    by_cases hDel : s.allDel = true
+    · -- all deletions: the new half is omitted
+      rw [if_pos hDel]
+      refine ⟨_, rfl, plain_halvesTexts _ _ _ _ hoR hnR hOp (by simp), ⟨_, _, rfl⟩, ?_⟩
+      intro pre tail n hpre htail
+      have hall : h.lines.all (·.op != PLUS) = true := by rw [← hi.allDel]; exact hDel
+      obtain ⟨par', hp, hafter⟩ := parseHunk_newOmitted NR pre hpre s.oldLines h.old h.new hoR hnR hoc' hO
+        (halfOp_of_oldOps hi.oldOps) tail htail n
+      rw [hrbO] at hp
+      obtain ⟨h', hh, e1, e2, e3, e4⟩ := hunkFromParts_newOmitted h.old.start h.new.start _ (oldOps_normNl hi.oldOps)
+      refine ⟨_, _, _, _, _, h', hp, hh, ⟨?_, ?_, ?_, ?_⟩, ?_⟩
+      · rw [e1, map_line_normNl, hi.oldLine, map_normNl_idem]
+      · rw [e2, ctxs_normNl, hi.oldCtx, map_normNl_idem, newOf_eq_ctxs _ hops hall]
+      · rw [e3, List.length_map]
+        exact range_eta _ _ hoc'
+      · rw [e4, ctxs_normNl, hi.oldCtx, List.length_map, ← newOf_eq_ctxs _ hops hall]
+        exact range_eta _ _ hnc
+      · rcases hafter with ⟨rfl, hr⟩ | ⟨more, n', rfl, rfl⟩
+        · exact .inl ⟨rfl, hr⟩
+        · exact .inr ⟨more, rfl, n', .inr rfl⟩
+    · -- both halves
+      rw [if_neg hDel]
+      refine ⟨_, rfl, plain_halvesTexts _ _ _ _ hoR hnR hOp hNp, ⟨_, _, rfl⟩, ?_⟩
+      intro pre tail n hpre htail
+      have hDel' : h.lines.all (·.op != PLUS) = false := by
+        rw [← hi.allDel]; simpa using hDel
+      have hN : s.newLines ≠ [] := by
+        intro hn; rw [hn] at hNl
+        have : newOf h.lines = [] := List.length_eq_zero_iff.mp hNl.symm
+        have hall : h.lines.all (·.op != PLUS) = true := by
+          rw [List.all_eq_true]
+          intro pl hpl
+          by_cases hm : pl.op = PLUS
+          · exfalso
+            have hmem : pl.line ∈ newOf h.lines := by
+              unfold newOf
+              exact List.mem_map.mpr ⟨pl, List.mem_filter.mpr ⟨hpl, by rw [hm]; decide⟩, rfl⟩
+            rw [this] at hmem; cases hmem
+          · simpa using hm
+        rw [hall] at hDel'; cases hDel'
+      obtain ⟨n', hp⟩ := parseHunk_both NR pre hpre s.oldLines s.newLines h.old h.new hoR hnR hoc' hnc' hO hN
+        (halfOp_of_oldOps hi.oldOps) (halfOp_of_newOps hi.newOps) tail htail.noBackslash n
+      rw [hrbO, hrbN] at hp
+      obtain ⟨h', hh, e1, e2, e3, e4⟩ := hunkFromParts_both h.old.start h.new.start _ _
+        (oldOps_normNl hi.oldOps) (newOps_normNl hi.newOps)
+        (by rw [ctxs_normNl, ctxs_normNl, hi.oldCtx, hi.newCtx])
+      refine ⟨_, _, _, _, _, h', hp, hh, ⟨?_, ?_, ?_, ?_⟩, ?_⟩
+      · rw [e1, map_line_normNl, hi.oldLine, map_normNl_idem]
+      · rw [e2, map_line_normNl, hi.newLine, map_normNl_idem]
+      · rw [e3, List.length_map]
+        exact range_eta _ _ hoc'
+      · rw [e4, List.length_map]
+        exact range_eta _ _ hnc'
+      · rcases htail with rfl | ⟨more, rfl⟩
+        · exact .inl ⟨rfl, rfl⟩
+        · exact .inr ⟨more, rfl, n', .inl rfl⟩
+
+/-! ### the whole body -/
+
+/-- two lists related element by element -/
+def Forall2 {α β : Type} (R : α → β → Prop) : List α → List β → Prop
+  | [], [] => True
+  | a :: as, b :: bs => R a b ∧ Forall2 R as bs
+  | _, _ => False
+
+theorem Forall2.length_eq {α β : Type} {R : α → β → Prop} : ∀ {as : List α} {bs : List β}, Forall2 R as bs →
+    as.length = bs.length
+  | [], [], _ => rfl
+  | _ :: as, _ :: bs, h => by simp [Forall2.length_eq (as := as) (bs := bs) h.2]
+  | [], _ :: _, h => h.elim
+  | _ :: _, [], h => h.elim
+
+theorem Forall2.get {α β : Type} {R : α → β → Prop} : ∀ {as : List α} {bs : List β}, Forall2 R as bs →
+    ∀ i (hi : i < as.length) (hi' : i < bs.length), R as[i] bs[i]
+  | [], [], _, i, hi, _ => by simp at hi
+  | a :: as, b :: bs, h, i, hi, hi' => by
+    cases i with
+    | zero => exact h.1
+    | succ i => exact Forall2.get (as := as) (bs := bs) h.2 i (by simpa using hi) (by simpa using hi')
+  | [], _ :: _, h, _, _, _ => h.elim
+  | _ :: _, [], h, _, _, _ => h.elim
+
+/-- the text lines of a reject body: the hunks' lines, separated by the stars line -/
+def bodyTexts : List (List Bytes) → List Bytes
+  | [] => []
+  | [ts] => ts
+  | ts :: ts' :: rest => ts ++ starsText :: bodyTexts (ts' :: rest)
+
+theorem ctxRejectBody_texts (NR : NumberRoundtrip) : ∀ (hs : List Hunk), (∀ h ∈ hs, h.writable = true) →
+    ∀ bytes, ctxRejectBody hs = .ok bytes →
+    ∃ tss, Forall2 HunkRT tss hs ∧ bytes = unlines (bodyTexts tss) := by
+  intro hs
+  induction hs with
+  | nil =>
+    intro _ bytes hb
+    simp [ctxRejectBody] at hb
+    exact ⟨[], trivial, by simp [← hb, bodyTexts]⟩
+  | cons h hs ih =>
+    intro hw bytes hb
+    rw [ctxRejectBody] at hb
+    split at hb
+    · rename_i b rest hb1 hb2
+      cases hb
+      obtain ⟨ts, rfl, hrt⟩ := hunk_roundtrip NR h (hw h (by simp)) b hb1
+      obtain ⟨tss, hf, rfl⟩ := ih (fun h' hh' => hw h' (by simp [hh'])) rest hb2
+      refine ⟨ts :: tss, ⟨hrt, hf⟩, ?_⟩
+      cases hs with
+      | nil =>
+        cases tss with
+        | nil => simp [bodyTexts]
+        | cons _ _ => exact hf.elim
+      | cons h2 hs =>
+        cases tss with
+        | nil => exact hf.elim
+        | cons ts2 tss =>
+          simp only [List.isEmpty_cons, Bool.false_eq_true, if_false, bodyTexts]
+          rw [unlines_append, unlines_cons, starsLine_eq]
+          simp
+    · cases hb
+    · cases hb
+
+theorem plain_bodyTexts : ∀ (tss : List (List Bytes)), (∀ ts ∈ tss, ∀ t ∈ ts, PlainText t) →
+    ∀ t ∈ bodyTexts tss, PlainText t
+  | [], _ => by simp [bodyTexts]
+  | [ts], h => by simpa [bodyTexts] using h
+  | ts :: ts' :: rest, h => by
+    intro t ht
+    simp only [bodyTexts, List.mem_append, List.mem_cons] at ht
+    rcases ht with ht | rfl | ht
+    · exact h ts (by simp) t ht
+    · exact plain_starsText
+    · exact plain_bodyTexts (ts' :: rest) (fun x hx => h x (by simp [hx])) t ht
+
+theorem body_stage_stop (fuel : Nat) (par par1 par2 : Parser) (acc : List Hunk) (ol nl : List PatchLine) (os ns : Int)
+    (h : Hunk) (h1 : parseContextHunk par = .ok (ol, os, nl, ns, par1))
+    (h2 : hunkFromContextParts os ol ns nl = .ok h)
+    (h3 : par1.getLine = (none, par2)) :
+    ∃ par3, parseContextBody (fuel + 1) par acc = .ok (acc ++ [h], par3) ∧ par3.s.rest = par1.s.rest := by
+  refine ⟨{ par2 with s := par2.s.seek par1.s.rest }, ?_, rfl⟩
+  rw [parseContextBody]
+  simp only [h1, h2, h3, startsWith_nil_stars15, startsWith_nil_old]
+  simp
+
+theorem body_stage_continue (fuel : Nat) (par par1 par2 : Parser) (acc : List Hunk) (ol nl : List PatchLine) (os ns : Int)
+    (h : Hunk) (l : Line) (h1 : parseContextHunk par = .ok (ol, os, nl, ns, par1))
+    (h2 : hunkFromContextParts os ol ns nl = .ok h)
+    (h3 : par1.getLine = (some l, par2))
+    (h4 : startsWith l.content "***************" = true ∨
+      (startsWith l.content "*** " = true ∧ endsWith l.content " ****" = true)) :
+    parseContextBody (fuel + 1) par acc
+      = parseContextBody fuel { par2 with s := par2.s.seek par1.s.rest } (acc ++ [h]) := by
+  rw [parseContextBody]
+  simp only [h1, h2, h3]
+  rcases h4 with h4 | ⟨h4, h5⟩
+  · simp [h4]
+  · simp [h4, h5]
+
+theorem bodyTexts_head (r : Range) (rest : List Bytes) (tss : List (List Bytes)) :
+    ∃ rest', bodyTexts ((oldRangeText r :: rest) :: tss) = oldRangeText r :: rest' := by
+  cases tss with
+  | nil => exact ⟨rest, rfl⟩
+  | cons ts' tss => exact ⟨_, rfl⟩
+
+theorem startsWith_oldRangeText (r : Range) : startsWith (oldRangeText r) "*** " = true := by
+  simp only [oldRangeText, List.append_assoc]; exact startsWith_old _
+
+theorem endsWith_oldRangeText (r : Range) : endsWith (oldRangeText r) " ****" = true := by
+  simp only [oldRangeText]; exact endsWith_old _
+
+theorem parseBody_rt : ∀ (tss : List (List Bytes)) (hs : List Hunk), Forall2 HunkRT tss hs → tss ≠ [] →
+    ∀ (fuel : Nat) (pre : List Line) (n : Nat) (acc : List Hunk), hs.length < fuel →
+      (pre = [] ∨ pre = [lfLine starsText]) →
+      ∃ hs' par', parseContextBody fuel (mkPar (pre ++ (bodyTexts tss).map lfLine) n) acc = .ok (acc ++ hs', par') ∧
+        Forall2 sameChange hs' hs ∧ par'.s.rest = [] := by
+  intro tss
+  induction tss with
+  | nil => intro _ _ hne; exact absurd rfl hne
+  | cons ts tss ih =>
+    intro hs hf _ fuel pre n acc hfuel hpre
+    cases hs with
+    | nil => exact hf.elim
+    | cons h hs =>
+      obtain ⟨hrt, hf'⟩ := hf
+      cases fuel with
+      | zero => simp at hfuel
+      | succ fuel =>
+        simp only [List.length_cons] at hfuel
+        cases tss with
+        | nil =>
+          cases hs with
+          | cons _ _ => exact hf'.elim
+          | nil =>
+            obtain ⟨ol, os, nl, ns, par1, h', hp, hh, hsc, hafter⟩ := hrt.2.2 pre [] n hpre (.inl rfl)
+            rw [List.append_nil] at hp
+            have hrest : par1.s.rest = [] := by
+              rcases hafter with ⟨_, hr⟩ | ⟨more, hm, _⟩
+              · exact hr
+              · cases hm
+            have hg : par1.getLine = (none, par1.getLine.2) := by
+              have := getLine_of_rest_nil par1 hrest
+              rw [← this]
+            obtain ⟨par3, hb, hr3⟩ := body_stage_stop fuel _ par1 _ acc ol nl os ns h' hp hh hg
+            refine ⟨[h'], par3, ?_, ⟨hsc, trivial⟩, by rw [hr3, hrest]⟩
+            simpa [bodyTexts] using hb
+        | cons ts2 tss =>
+          cases hs with
+          | nil => exact hf'.elim
+          | cons h2 hs =>
+            obtain ⟨r2, rest2, hts2⟩ := hf'.1.2.1
+            obtain ⟨rest2', hhead⟩ := bodyTexts_head r2 rest2 tss
+            rw [← hts2] at hhead
+            have hstream : (bodyTexts (ts :: ts2 :: tss)).map lfLine
+                = ts.map lfLine ++ lfLine starsText :: (bodyTexts (ts2 :: tss)).map lfLine := by
+              simp [bodyTexts]
+            rw [hstream]
+            obtain ⟨ol, os, nl, ns, par1, h', hp, hh, hsc, hafter⟩ :=
+              hrt.2.2 pre (lfLine starsText :: (bodyTexts (ts2 :: tss)).map lfLine) n hpre (.inr ⟨_, rfl⟩)
+            rcases hafter with ⟨hm, _⟩ | ⟨more, hm, n', hpar⟩
+            · cases hm
+            · obtain ⟨hmore⟩ := List.cons.inj hm
+              rename_i hmore'
+              subst hmore'
+              rcases hpar with rfl | rfl
+              · -- the separator is still to be read
+                have hg := getLine_lf starsText ((bodyTexts (ts2 :: tss)).map lfLine) n'
+                have hc := body_stage_continue fuel _ _ _ acc ol nl os ns h' _ hp hh hg (.inl startsWith_stars_stars15)
+                obtain ⟨hs', par', hb, hfs, hr⟩ := ih (h2 :: hs) hf' (by simp) fuel [lfLine starsText] (n' + 1)
+                  (acc ++ [h']) (by simp only [List.length_cons] at hfuel ⊢; omega) (.inr rfl)
+                refine ⟨h' :: hs', par', ?_, ⟨hsc, hfs⟩, hr⟩
+                rw [hc]
+                rw [List.append_assoc, List.singleton_append] at hb
+                exact hb
+              · -- the separator was consumed with the hunk
+                rw [hhead, List.map_cons] at hp ⊢
+                have hg := getLine_lf (oldRangeText r2) (rest2'.map lfLine) n'
+                have hc := body_stage_continue fuel _ _ _ acc ol nl os ns h' _ hp hh hg
+                  (.inr ⟨startsWith_oldRangeText r2, endsWith_oldRangeText r2⟩)
+                obtain ⟨hs', par', hb, hfs, hr⟩ := ih (h2 :: hs) hf' (by simp) fuel [] (n' + 1)
+                  (acc ++ [h']) (by simp only [List.length_cons] at hfuel ⊢; omega) (.inl rfl)
+                refine ⟨h' :: hs', par', ?_, ⟨hsc, hfs⟩, hr⟩
+                rw [hc]
+                rw [hhead, List.map_cons, List.append_assoc, List.singleton_append] at hb
+                exact hb
+
+/-- the context round trip, given the number round trip -/
+theorem context_roundtrip_of (NR : NumberRoundtrip) (hs : List Hunk) (hne : hs ≠ [])
+    (hw : ∀ h ∈ hs, h.writable = true) (bytes : Bytes) (hb : ctxRejectBody hs = .ok bytes)
+    (lineNo : Nat) (fuel : Nat) (hf : hs.length < fuel) :
+    ∃ hs' par', parseContextBody fuel { s := { rest := splitLines bytes }, lineNo := lineNo } [] = .ok (hs', par') ∧
+      hs'.length = hs.length ∧
+      (∀ i (hi : i < hs.length) (hi' : i < hs'.length), sameChange hs'[i] hs[i]) ∧
+      par'.s.rest = [] := by
+  obtain ⟨tss, hrt, rfl⟩ := ctxRejectBody_texts NR hs hw bytes hb
+  have hplain : ∀ t ∈ bodyTexts tss, PlainText t := by
+    apply plain_bodyTexts
+    intro ts hts
+    obtain ⟨i, hi, rfl⟩ := List.getElem_of_mem hts
+    exact (hrt.get i hi (by rw [← hrt.length_eq]; exact hi)).1
+  rw [splitLines_unlines _ hplain]
+  have htne : tss ≠ [] := by
+    intro h; subst h
+    cases hs with
+    | nil => exact hne rfl
+    | cons _ _ => exact hrt.elim
+  obtain ⟨hs', par', hp, hfs, hr⟩ := parseBody_rt tss hs hrt htne fuel [] lineNo [] hf (.inl rfl)
+  refine ⟨hs', par', ?_, hfs.length_eq, fun i hi hi' => hfs.get i hi' hi, hr⟩
+  simpa [mkPar] using hp
 
 end PatchModel.Context
